@@ -1,6 +1,1805 @@
-//! C06 — stub: correspondence harness not built yet.
+//! C06 — Top-K collection returns exactly the best K, with deterministic ties.
+//!
+//! (A) `TopNComputer` (public) on generated push sequences vs `Model/TopN.lean` (final vector,
+//!     threshold after every push, two different `select_nth` behaviours) and vs a sort.
+//! (B) end to end: `Searcher::search(query, TopDocs…)` by score / fast field asc+desc
+//!     (u64, i64, f64, date, string) / tweak_score / custom sort key / lexicographic pair, with
+//!     offsets, 1..6 segments with deletes, single- and multi-threaded executor, against the SAME
+//!     searcher's exhaustive (doc, key) list from a non-pruning collector, ordered by the model's
+//!     `topK` spec. Exact equality for exactly comparable keys; a tolerance only for scores that
+//!     are float sums over several clauses. Paging enumerates every match once.
+//! Known findings are attributed only when the named bound hypothesis is verified to fail on the
+//! searcher at hand (recomputed through the public postings API).
+use crate::model::nat_list;
+use crate::rng::Rng;
 use crate::Ctx;
+use serde_json::{json, Value};
+use std::cmp::Ordering;
+use std::panic::{catch_unwind, AssertUnwindSafe};
+use tantivy::collector::sort_key::{
+    NaturalComparator, ReverseComparator, SortByStaticFastValue,
+};
+use tantivy::collector::{
+    Collector, SegmentCollector, SegmentSortKeyComputer, SortKeyComputer, TopDocs, TopNComputer,
+};
+use tantivy::columnar::Column;
+use tantivy::merge_policy::NoMergePolicy;
+use tantivy::query::{
+    AllQuery, Bm25Weight, BooleanQuery, BoostQuery, ConstScoreQuery, Occur, Query, TermQuery,
+};
+use tantivy::schema::{Field, IndexRecordOption, Schema, FAST, INDEXED, STRING, TEXT};
+use tantivy::{
+    DateTime, DocAddress, DocId, Index, IndexWriter, Order, Score, Searcher, SegmentReader,
+    TantivyDocument, Term,
+};
+
+// ---------------------------------------------------------------------------------------------
+// (A) TopNComputer vs model
+// ---------------------------------------------------------------------------------------------
+
+fn real_topn(k: usize, asc: bool, keys: &[i64], addrs: &[u32]) -> Result<(Vec<(i64, u32)>, Vec<Option<i64>>), ()> {
+    catch_unwind(AssertUnwindSafe(|| {
+        let mut trace = Vec::with_capacity(keys.len());
+        if asc {
+            let mut c: TopNComputer<i64, u32, ReverseComparator> = TopNComputer::new_with_comparator(k, ReverseComparator);
+            for (key, a) in keys.iter().zip(addrs) {
+                c.push(*key, *a);
+                trace.push(c.threshold);
+            }
+            (c.into_sorted_vec().into_iter().map(|d| (d.sort_key, d.doc)).collect(), trace)
+        } else {
+            let mut c: TopNComputer<i64, u32, NaturalComparator> = TopNComputer::new_with_comparator(k, NaturalComparator);
+            for (key, a) in keys.iter().zip(addrs) {
+                c.push(*key, *a);
+                trace.push(c.threshold);
+            }
+            (c.into_sorted_vec().into_iter().map(|d| (d.sort_key, d.doc)).collect(), trace)
+        }
+    }))
+    .map_err(|_| ())
+}
+
+fn show_entries(v: &[(i64, u64)]) -> String {
+    if v.is_empty() {
+        return "-".into();
+    }
+    v.iter().map(|(k, a)| format!("{k}@{a}")).collect::<Vec<_>>().join(",")
+}
+
+fn topn_case(ctx: &mut Ctx, k: usize, asc: bool, keys: &[i64], addrs: &[u32], origin: &str) {
+    let case = json!({"kind": "topn", "k": k, "asc": asc, "keys": keys, "addrs": addrs});
+    let order = if asc { "asc" } else { "desc" };
+    ctx.report.count(&format!("topn:{origin}"));
+    ctx.report.count(&format!("topn:k={}", match k { 0 => "0", 1 => "1", 2..=9 => "2-9", 10..=99 => "10-99", _ => "100+" }));
+    let distinct: std::collections::HashSet<i64> = keys.iter().cloned().collect();
+    let nontrivial = keys.len() > 2 * k.max(1) && distinct.len() < keys.len();
+    ctx.report.case(&format!("topn|{k}|{asc}|{:x}", crate::report::fnv(format!("{keys:?}{addrs:?}").as_bytes())), nontrivial);
+    let real = match real_topn(k, asc, keys, addrs) {
+        Ok(r) => r,
+        Err(()) => {
+            ctx.report.violation("oracle", "C06:topn-panic", format!("TopNComputer panicked (K={k}, {} pushes)", keys.len()), case);
+            return;
+        }
+    };
+    // oracle: sort by (key better first, addr asc), take K
+    let mut exp: Vec<(i64, u32)> = keys.iter().cloned().zip(addrs.iter().cloned()).collect();
+    exp.sort_by(|a, b| (if asc { a.0.cmp(&b.0) } else { b.0.cmp(&a.0) }).then(a.1.cmp(&b.1)));
+    exp.truncate(k);
+    if real.0 != exp {
+        ctx.report.violation("oracle", "C06:topn-computer-wrong", format!("TopNComputer(K={k}, {order}) over {} pushes: got {:?}…, expected {:?}…", keys.len(), &real.0[..real.0.len().min(4)], &exp[..exp.len().min(4)]), case);
+        return;
+    }
+    let real_vec = show_entries(&real.0.iter().map(|(k, a)| (*k, *a as u64)).collect::<Vec<_>>());
+    let real_trace = if real.1.is_empty() { "-".to_string() } else { real.1.iter().map(|t| t.map(|x| x.to_string()).unwrap_or("n".into())).collect::<Vec<_>>().join(",") };
+    for sel in ["sorted", "reversed"] {
+        let resp = ctx.model.ask(&format!("C06 topn {k} {order} {sel} {} {}", nat_list(keys), nat_list(addrs)));
+        let expect = format!("{real_vec}|{real_trace}|0");
+        if resp != expect {
+            let what = if resp.split('|').next() != Some(&real_vec) { "final vector" } else if resp.ends_with("|1") { "model predicts a panic" } else { "threshold trace" };
+            ctx.report.violation("model", "C06:topn-model-mismatch", format!("TopNComputer(K={k}, {order}, sel={sel}) differs from the model in the {what}: real {}… model {}…", &expect[..expect.len().min(80)], &resp[..resp.len().min(80)]), case.clone());
+            return;
+        }
+    }
+}
+
+fn gen_topn(ctx: &mut Ctx, n_cases: u64) {
+    let mut rng = ctx.rng.fork();
+    for i in 0..n_cases {
+        let k = match rng.below(10) { 0 => 0, 1 | 2 => 1, 3 => 2, 4 => 3, 5 => 5, 6 => 10, 7 => 64, 8 => rng.range(2, 40) as usize, _ => rng.range(100, 300) as usize };
+        let cap = 2 * k.max(1);
+        let n = match rng.below(9) { 0 => 0, 1 => 1, 2 => k, 3 => cap, 4 => cap + 1, 5 => 2 * cap + 1, 6 => rng.range(0, 3 * cap as u64 + 3) as usize, 7 => rng.range(0, 50) as usize, _ => rng.range(cap as u64, 6 * cap as u64 + 20) as usize };
+        let n = n.min(if ctx.thorough() { 5000 } else { 1500 });
+        let alphabet = match rng.below(6) { 0 => 1, 1 => 2, 2 => 3, 3 => 10, 4 => 1000, _ => 1 << 40 };
+        let trend = rng.below(4); // 0 random, 1 ascending keys (threshold keeps rising), 2 descending, 3 random
+        let mut addr: u32 = rng.below(3) as u32;
+        let mut keys = vec![];
+        let mut addrs = vec![];
+        for j in 0..n {
+            let base = rng.below(alphabet) as i64 - (alphabet / 2) as i64;
+            let key = match trend { 1 => base / 4 + (j as i64) / 3, 2 => base / 4 - (j as i64) / 3, _ => base };
+            keys.push(key);
+            addrs.push(addr);
+            addr += 1 + if rng.chance(1, 4) { rng.below(1000) as u32 } else { 0 };
+        }
+        topn_case(ctx, k, rng.chance(1, 2), &keys, &addrs, "generated");
+        if i == 0 {
+            ctx.report.sample(json!({"part": "A", "k": k, "pushes": n, "key_alphabet": alphabet, "first_keys": &keys[..keys.len().min(12)]}));
+        }
+    }
+}
+
+/// A line-by-line replica of the collection pipeline built from the real, public `TopNComputer`:
+/// per segment `push` in doc order + `into_vec()`, then `merge_top_k` (push the flattened fruits,
+/// `into_sorted_vec`). `heap_segments` replicates `TopNHeap` (collection by score) instead.
+/// Used to *guide* generation towards tie-breaking in the merge and to confirm the mechanism
+/// before a failing end-to-end case is attributed; never used as an oracle.
+fn pipeline_replica(n: usize, segs: &[Vec<(i64, u32)>], heap_segments: bool) -> Vec<(i64, (u32, u32))> {
+    // a panic of the real TopNComputer inside the replica must not take the harness down
+    catch_unwind(AssertUnwindSafe(|| pipeline_replica_inner(n, segs, heap_segments))).unwrap_or_default()
+}
+
+fn pipeline_replica_inner(n: usize, segs: &[Vec<(i64, u32)>], heap_segments: bool) -> Vec<(i64, (u32, u32))> {
+    use std::cmp::Reverse;
+    use std::collections::BinaryHeap;
+    let mut merged: TopNComputer<i64, (u32, u32), NaturalComparator> = TopNComputer::new_with_comparator(n, NaturalComparator);
+    for (s, docs) in segs.iter().enumerate() {
+        if heap_segments {
+            // mirrors sort_by_score.rs::TopNHeap (entry order: score, then lower doc wins ties)
+            let mut heap: BinaryHeap<Reverse<(i64, Reverse<u32>)>> = BinaryHeap::with_capacity(n);
+            let mut threshold: Option<i64> = None;
+            for (k, d) in docs {
+                if heap.len() < n {
+                    heap.push(Reverse((*k, Reverse(*d))));
+                    if heap.len() == n {
+                        threshold = heap.peek().map(|Reverse(e)| e.0);
+                    }
+                } else if let Some(t) = threshold {
+                    if *k > t {
+                        if let Some(mut min) = heap.peek_mut() {
+                            *min = Reverse((*k, Reverse(*d)));
+                        }
+                        threshold = heap.peek().map(|Reverse(e)| e.0);
+                    }
+                }
+            }
+            for Reverse((k, Reverse(d))) in heap.into_vec() {
+                merged.push(k, (s as u32, d));
+            }
+        } else {
+            let mut c: TopNComputer<i64, u32, NaturalComparator> = TopNComputer::new_with_comparator(n, NaturalComparator);
+            for (k, d) in docs {
+                c.push(*k, *d);
+            }
+            for cd in c.into_vec() {
+                merged.push(cd.sort_key, (s as u32, cd.doc));
+            }
+        }
+    }
+    merged.into_sorted_vec().into_iter().map(|d| (d.sort_key, d.doc)).collect()
+}
+
+fn gen_tie_segments(rng: &mut Rng) -> (usize, Vec<Vec<(i64, u32)>>) {
+    let n = [3usize, 4, 6, 9, 12, 17, 24, 40][rng.usize_below(8)];
+    let nseg = 3 + rng.usize_below(4);
+    let mut segs: Vec<Vec<(i64, u32)>> = vec![];
+    for s in 0..nseg {
+        let docs = match rng.below(4) { 0 => 1 + rng.usize_below(n + 1), 1 => n + 1 + rng.usize_below(n), _ => 2 * n + 1 + rng.usize_below(4 * n) };
+        segs.push((0..docs).map(|d| ((s as i64) / 2 + rng.below(2) as i64 + if rng.chance(1, 10) { 1 } else { 0 }, d as u32)).collect());
+    }
+    (n, segs)
+}
+
+/// exploration aid (C06_EXPLORE=1): a line-by-line replica of `merge_top_k` fed with real
+/// `TopNComputer::into_vec()` fruits, compared with a sort. Not part of any verdict.
+fn explore_merge_replica(ctx: &mut Ctx) {
+    let mut rng = ctx.rng.fork();
+    let mut found = 0;
+    for it in 0..400_000u64 {
+        let (n, segs) = gen_tie_segments(&mut rng);
+        let got = pipeline_replica(n, &segs, it % 2 == 1);
+        let mut exp: Vec<(i64, (u32, u32))> = segs.iter().enumerate().flat_map(|(s, docs)| docs.iter().map(move |(k, d)| (*k, (s as u32, *d)))).collect();
+        exp.sort_by(|a, b| b.0.cmp(&a.0).then(a.1.cmp(&b.1)));
+        exp.truncate(n);
+        if got != exp {
+            found += 1;
+            if found <= 3 {
+                eprintln!("replica mismatch at iteration {it}: n={n} seg sizes {:?}", segs.iter().map(|s| s.len()).collect::<Vec<_>>());
+            }
+        }
+    }
+    eprintln!("merge replica: {found} mismatches");
+}
+
+// ---------------------------------------------------------------------------------------------
+// (B) end to end
+// ---------------------------------------------------------------------------------------------
+
+const TERMS: [&str; 6] = ["a", "b", "c", "d", "e", "g"];
+
+#[derive(Clone, Debug, PartialEq)]
+enum Key {
+    None,
+    U(u64),
+    I(i64),
+    F(f64),
+    S(String),
+    Sc(f32),
+    Pair(Box<Key>, Box<Key>),
+}
+
+impl Key {
+    fn natural(&self, o: &Key) -> Ordering {
+        match (self, o) {
+            (Key::None, Key::None) => Ordering::Equal,
+            (Key::None, _) => Ordering::Less,
+            (_, Key::None) => Ordering::Greater,
+            (Key::U(a), Key::U(b)) => a.cmp(b),
+            (Key::I(a), Key::I(b)) => a.cmp(b),
+            (Key::F(a), Key::F(b)) => a.partial_cmp(b).unwrap_or(Ordering::Equal),
+            (Key::S(a), Key::S(b)) => a.cmp(b),
+            (Key::Sc(a), Key::Sc(b)) => a.partial_cmp(b).unwrap_or(Ordering::Equal),
+            _ => Ordering::Equal,
+        }
+    }
+    fn show(&self) -> String {
+        match self {
+            Key::None => "none".into(),
+            Key::U(x) => format!("{x}"),
+            Key::I(x) => format!("{x}"),
+            Key::F(x) => format!("{x:?}"),
+            Key::S(x) => format!("{x:?}"),
+            Key::Sc(x) => format!("{x:?}/{:08x}", x.to_bits()),
+            Key::Pair(a, b) => format!("({}, {})", a.show(), b.show()),
+        }
+    }
+}
+
+/// `Less` = `a` comes first. Mirrors the documented order of `Order::Desc` (Natural: greatest
+/// first, None last) and `Order::Asc` (ReverseNoneLower: smallest first, None last).
+fn better(asc: bool, a: &Key, b: &Key) -> Ordering {
+    match (a, b) {
+        (Key::None, Key::None) => Ordering::Equal,
+        (Key::None, _) => Ordering::Greater,
+        (_, Key::None) => Ordering::Less,
+        _ => if asc { a.natural(b) } else { b.natural(a) },
+    }
+}
+
+#[derive(Clone, Debug, PartialEq)]
+enum Kind {
+    Score,
+    FastU64(bool),
+    FastI64(bool),
+    FastF64(bool),
+    FastDate(bool),
+    FastStr(bool),
+    /// low-cardinality u64 column: massive ties
+    FastTies(bool),
+    TweakFloor,
+    TweakMod,
+    CustomMod(u64, Option<bool>),
+    PairAscDesc,
+    /// custom sort key given explicitly per (segment ordinal, doc): replica-guided tie layouts
+    Layout(std::sync::Arc<Vec<Vec<u64>>>),
+}
+
+impl Kind {
+    fn name(&self) -> String {
+        if let Kind::Layout(_) = self { return "Layout".into(); }
+        format!("{self:?}")
+    }
+    fn cmp(&self, a: &Key, b: &Key) -> Ordering {
+        match self {
+            Kind::Score | Kind::TweakFloor | Kind::TweakMod => better(false, a, b),
+            Kind::FastU64(asc) | Kind::FastI64(asc) | Kind::FastF64(asc) | Kind::FastDate(asc) | Kind::FastStr(asc) | Kind::FastTies(asc) => better(*asc, a, b),
+            Kind::CustomMod(_, o) => better(o.unwrap_or(false), a, b),
+            Kind::Layout(_) => better(false, a, b),
+            Kind::PairAscDesc => match (a, b) {
+                (Key::Pair(a1, a2), Key::Pair(b1, b2)) => better(true, a1, b1).then(better(false, a2, b2)),
+                _ => Ordering::Equal,
+            },
+        }
+    }
+    fn uses_score(&self) -> bool {
+        matches!(self, Kind::Score | Kind::TweakFloor)
+    }
+}
+
+#[derive(Clone, Debug)]
+enum Q {
+    Term(String),
+    Union(Vec<String>),
+    Inter(Vec<String>),
+    Mix { must: Vec<String>, should: Vec<String>, not: Vec<String> },
+    Boost(Box<Q>, f32),
+    Const(Box<Q>, f32),
+    Nested(Vec<(u8, Q)>),
+    /// DisjunctionMaxQuery over plain term queries
+    DisMax(Vec<String>, f32),
+    All,
+}
+
+/// `t:x` = term x of field `title`, `n:x` = of the no-freq field `basic`, plain `x` = of `body`
+fn term_of(fields: &Fields, t: &str) -> (Field, Term) {
+    if let Some(x) = t.strip_prefix("t:") { (fields.title, Term::from_field_text(fields.title, x)) }
+    else if let Some(x) = t.strip_prefix("n:") { (fields.basic, Term::from_field_text(fields.basic, x)) }
+    else { (fields.body, Term::from_field_text(fields.body, t)) }
+}
+
+impl Q {
+    fn build(&self, fields: &Fields) -> Box<dyn Query> {
+        let tq = |t: &String| -> Box<dyn Query> { Box::new(TermQuery::new(term_of(fields, t).1, IndexRecordOption::WithFreqs)) };
+        match self {
+            Q::Term(t) => tq(t),
+            Q::Union(ts) => Box::new(BooleanQuery::new(ts.iter().map(|t| (Occur::Should, tq(t))).collect())),
+            Q::Inter(ts) => Box::new(BooleanQuery::new(ts.iter().map(|t| (Occur::Must, tq(t))).collect())),
+            Q::Mix { must, should, not } => {
+                let mut v: Vec<(Occur, Box<dyn Query>)> = vec![];
+                v.extend(must.iter().map(|t| (Occur::Must, tq(t))));
+                v.extend(should.iter().map(|t| (Occur::Should, tq(t))));
+                v.extend(not.iter().map(|t| (Occur::MustNot, tq(t))));
+                Box::new(BooleanQuery::new(v))
+            }
+            Q::Boost(q, b) => Box::new(BoostQuery::new(q.build(fields), *b)),
+            Q::Const(q, s) => Box::new(ConstScoreQuery::new(q.build(fields), *s)),
+            Q::Nested(cs) => Box::new(BooleanQuery::new(cs.iter().map(|(o, q)| (match o { 0 => Occur::Must, 1 => Occur::Should, _ => Occur::MustNot }, q.build(fields))).collect())),
+            Q::DisMax(ts, tie) => Box::new(tantivy::query::DisjunctionMaxQuery::with_tie_breaker(ts.iter().map(tq).collect(), *tie)),
+            Q::All => Box::new(AllQuery),
+        }
+    }
+    /// number of scoring clauses whose scores are added (1 = the score is bit-exact)
+    fn clauses(&self) -> usize {
+        match self {
+            Q::Term(_) | Q::All | Q::Const(_, _) => 1,
+            Q::Union(ts) | Q::Inter(ts) | Q::DisMax(ts, _) => ts.len(),
+            Q::Mix { must, should, .. } => must.len() + should.len(),
+            Q::Boost(q, _) => q.clauses(),
+            Q::Nested(cs) => cs.iter().filter(|(o, _)| *o < 2).map(|(_, q)| q.clauses()).sum::<usize>().max(1),
+        }
+    }
+    fn path(&self) -> &'static str {
+        match self {
+            Q::Term(_) => "block_wand_single_scorer",
+            Q::Union(ts) if ts.len() >= 2 => "block_wand",
+            Q::Union(_) => "block_wand_single_scorer",
+            Q::Inter(ts) if ts.len() >= 2 => "block_wand_intersection",
+            Q::Inter(_) => "block_wand_single_scorer",
+            Q::DisMax(ts, _) if ts.len() >= 2 => "block_wand(dismax)",
+            _ => "for_each_pruning_scorer",
+        }
+    }
+    fn wand_terms(&self) -> Option<Vec<String>> {
+        match self {
+            Q::Term(t) => Some(vec![t.clone()]),
+            Q::Union(ts) | Q::Inter(ts) | Q::DisMax(ts, _) => Some(ts.clone()),
+            _ => None,
+        }
+    }
+    fn to_json(&self) -> Value {
+        match self {
+            Q::Term(t) => json!({"term": t}),
+            Q::Union(ts) => json!({"union": ts}),
+            Q::Inter(ts) => json!({"inter": ts}),
+            Q::Mix { must, should, not } => json!({"must": must, "should": should, "not": not}),
+            Q::Boost(q, b) => json!({"boost": b, "q": q.to_json()}),
+            Q::Const(q, s) => json!({"const": s, "q": q.to_json()}),
+            Q::Nested(cs) => json!({"nested": cs.iter().map(|(o, q)| json!([o, q.to_json()])).collect::<Vec<_>>()}),
+            Q::DisMax(ts, tie) => json!({"dismax": ts, "tie_bits": tie.to_bits()}),
+            Q::All => json!("all"),
+        }
+    }
+    fn from_json(v: &Value) -> Option<Q> {
+        let strs = |v: &Value| -> Option<Vec<String>> { v.as_array()?.iter().map(|x| x.as_str().map(|s| s.to_string())).collect() };
+        if v == "all" {
+            return Some(Q::All);
+        }
+        if let Some(t) = v.get("term") { return Some(Q::Term(t.as_str()?.into())); }
+        if let Some(t) = v.get("union") { return Some(Q::Union(strs(t)?)); }
+        if let Some(t) = v.get("inter") { return Some(Q::Inter(strs(t)?)); }
+        if let Some(t) = v.get("dismax") { return Some(Q::DisMax(strs(t)?, f32::from_bits(v["tie_bits"].as_u64()? as u32))); }
+        if let Some(b) = v.get("boost") { return Some(Q::Boost(Box::new(Q::from_json(&v["q"])?), b.as_f64()? as f32)); }
+        if let Some(b) = v.get("const") { return Some(Q::Const(Box::new(Q::from_json(&v["q"])?), b.as_f64()? as f32)); }
+        if let Some(n) = v.get("nested") {
+            let mut cs = vec![];
+            for c in n.as_array()? {
+                cs.push((c[0].as_u64()? as u8, Q::from_json(&c[1])?));
+            }
+            return Some(Q::Nested(cs));
+        }
+        if v.get("must").is_some() {
+            return Some(Q::Mix { must: strs(&v["must"])?, should: strs(&v["should"])?, not: strs(&v["not"])? });
+        }
+        None
+    }
+}
+
+/// one segment of a generated corpus: documents described compactly so that a case is replayable
+#[derive(Clone, Debug)]
+struct SegSpec {
+    seed: u64,
+    docs: usize,
+    /// 0 short (1..8 tokens), 1 sweep of the quantisation buckets, 2 long, 3 single-term docs (F5 shape),
+    /// 4 S3 shape A (dense `a a q*8` then alternating), 5 only filler
+    profile: u8,
+}
+
+#[derive(Clone, Debug)]
+struct CorpusSpec {
+    segs: Vec<SegSpec>,
+    delete_seed: u64,
+    delete_permille: u64,
+    /// the low-cardinality `ties` column grows with the segment ordinal (later segments beat the
+    /// merge threshold of earlier ones: the neighbourhood of tie-breaking in `merge_top_k`)
+    ties_trend: bool,
+    /// explicit values of the `ties` column, per segment and document (model/replica-guided cases)
+    ties_explicit: Option<Vec<Vec<u64>>>,
+}
+
+impl CorpusSpec {
+    fn to_json(&self) -> Value {
+        json!({"segs": self.segs.iter().map(|s| json!([s.seed.to_string(), s.docs, s.profile])).collect::<Vec<_>>(),
+               "delete_seed": self.delete_seed.to_string(), "delete_permille": self.delete_permille, "ties_trend": self.ties_trend, "ties_explicit": self.ties_explicit})
+    }
+    fn from_json(v: &Value) -> Option<CorpusSpec> {
+        let mut segs = vec![];
+        for s in v["segs"].as_array()? {
+            segs.push(SegSpec { seed: s[0].as_str()?.parse().ok()?, docs: s[1].as_u64()? as usize, profile: s[2].as_u64()? as u8 });
+        }
+        Some(CorpusSpec { segs, delete_seed: v["delete_seed"].as_str()?.parse().ok()?, delete_permille: v["delete_permille"].as_u64()?, ties_trend: v["ties_trend"].as_bool().unwrap_or(false),
+            ties_explicit: v["ties_explicit"].as_array().map(|a| a.iter().map(|s| s.as_array().map(|x| x.iter().filter_map(|y| y.as_u64()).collect()).unwrap_or_default()).collect()) })
+    }
+}
+
+struct Fields {
+    body: Field,
+    /// second tokenized field with freqs (mixed-field unions)
+    title: Field,
+    /// tokenized field indexed with IndexRecordOption::Basic (no freqs, fieldnorms on)
+    basic: Field,
+    id: Field,
+    u: Field,
+    i: Field,
+    f: Field,
+    d: Field,
+    s: Field,
+    ties: Field,
+}
+
+fn schema() -> (Schema, Fields) {
+    let mut sb = Schema::builder();
+    let body = sb.add_text_field("body", TEXT);
+    let title = sb.add_text_field("title", TEXT);
+    let basic = sb.add_text_field("basic", tantivy::schema::TextOptions::default().set_indexing_options(
+        tantivy::schema::TextFieldIndexing::default().set_index_option(IndexRecordOption::Basic).set_fieldnorms(true)));
+    let id = sb.add_u64_field("id", INDEXED | FAST);
+    let u = sb.add_u64_field("u", FAST);
+    let i = sb.add_i64_field("i", FAST);
+    let f = sb.add_f64_field("f", FAST);
+    let d = sb.add_date_field("d", FAST);
+    let s = sb.add_text_field("s", STRING | FAST);
+    let ties = sb.add_u64_field("ties", FAST);
+    (sb.build(), Fields { body, title, basic, id, u, i, f, d, s, ties })
+}
+
+fn field_norm_table() -> Vec<u32> {
+    (0..=255u8).map(tantivy::fieldnorm::FieldNormReader::id_to_fieldnorm).collect()
+}
+
+fn gen_body(rng: &mut Rng, profile: u8, j: usize, table: &[u32]) -> String {
+    let mut toks: Vec<&str> = vec![];
+    match profile {
+        3 => {
+            // F5 shape: a document made of one term only, length in a lossy quantisation bucket
+            let t = if rng.chance(2, 3) { "a" } else { *rng.pick(&TERMS) };
+            let len = match rng.below(4) { 0 => 41, 1 => 43, 2 => 41 + rng.below(60) as usize, _ => 1 + rng.below(40) as usize };
+            toks.extend(std::iter::repeat(t).take(len));
+        }
+        4 => {
+            // S3 shape: `a a q×8` for the first 128 docs, then alternating `a` / `a a q×8`
+            if j < 128 || j % 2 == 1 {
+                toks.extend(["a", "a", "q", "q", "q", "q", "q", "q", "q", "q"]);
+            } else {
+                toks.push("a");
+            }
+            if j % 7 == 3 {
+                toks.push("b");
+            }
+        }
+        5 => {
+            let len = 1 + rng.below(3) as usize;
+            toks.extend(std::iter::repeat("z").take(len));
+        }
+        6 | 7 => {
+            // massive score ties: `a z` (lower score) or `a` (higher score); profile 7 mostly the higher
+            toks.push("a");
+            if rng.below(10) < if profile == 6 { 8 } else { 2 } {
+                toks.push("z");
+            }
+            if rng.chance(1, 3) {
+                toks.push("b");
+            }
+        }
+        _ => {
+            let len = match profile {
+                // length trend: the first third of the segment is long, the rest short — block
+                // bounds taken from the beginning of a posting list are far below later scores
+                8 => if j % 3000 < 700 { 150 + rng.below(250) as usize } else { 1 + rng.below(6) as usize },
+                0 => 1 + rng.below(8) as usize,
+                2 => 300 + rng.below(2500) as usize,
+                _ => {
+                    // sweep the quantisation buckets: pick an id, then a length inside its bucket
+                    let id = if rng.chance(1, 60) { 100 + rng.below(36) as usize } else { rng.below(100) as usize };
+                    let lo = table[id].max(1) as usize;
+                    let hi = (table[id + 1] as usize).max(lo + 1);
+                    lo + rng.usize_below(hi - lo)
+                }
+            };
+            let mut left = len;
+            for (ti, t) in TERMS.iter().enumerate() {
+                // document frequencies fall with the term index; tf skewed
+                let p = if profile == 8 { [75u64, 60, 50, 40, 30, 5][ti] } else { [70u64, 45, 25, 12, 5, 2][ti] };
+                if left > 0 && rng.below(100) < p {
+                    let tf = match rng.below(10) { 0..=5 => 1, 6 | 7 => 1 + rng.below(4) as usize, 8 => 1 + rng.below(30) as usize, _ => 1 + rng.usize_below(left) };
+                    let tf = tf.min(left);
+                    toks.extend(std::iter::repeat(*t).take(tf));
+                    left -= tf;
+                }
+            }
+            toks.extend(std::iter::repeat("z").take(left));
+        }
+    }
+    toks.join(" ")
+}
+
+const STRS: [&str; 9] = ["", "a", "ab", "abc", "b", "zz", "é", "Z", "aa"];
+
+struct Built {
+    index: Index,
+    fields: Fields,
+    num_docs: usize,
+}
+
+/// The searcher's segment order is the iteration order of a hash map over random segment ids:
+/// it differs from run to run. Cases record it (first `id` of every segment) and a replay
+/// rebuilds the corpus until the order matches.
+fn segment_order(searcher: &Searcher) -> Vec<u64> {
+    searcher.segment_readers().iter().map(|r| r.fast_fields().u64("id").ok().and_then(|c| c.first(0)).unwrap_or(u64::MAX)).collect()
+}
+
+fn build_with_order(spec: &CorpusSpec, want: Option<&Vec<u64>>) -> (Built, bool) {
+    let total: usize = spec.segs.iter().map(|s| s.docs).sum();
+    let tries = if want.is_none() { 1 } else if total <= 3000 { 3000 } else if total <= 20000 { 200 } else { 20 };
+    let mut last = None;
+    for _ in 0..tries {
+        let b = build(spec);
+        let ord = segment_order(&b.index.reader().unwrap().searcher());
+        let ok = want.map(|w| *w == ord).unwrap_or(true);
+        last = Some(b);
+        if ok {
+            return (last.unwrap(), true);
+        }
+    }
+    (last.unwrap(), false)
+}
+
+fn build(spec: &CorpusSpec) -> Built {
+    let (schema, fields) = schema();
+    let index = Index::create_in_ram(schema);
+    let table = field_norm_table();
+    let mut w: IndexWriter = index.writer_with_num_threads(1, 60_000_000).unwrap();
+    w.set_merge_policy(Box::new(NoMergePolicy));
+    let mut next_id: u64 = 0;
+    for (seg_pos, seg) in spec.segs.iter().enumerate() {
+        let mut rng = Rng(seg.seed);
+        for j in 0..seg.docs {
+            let mut doc = TantivyDocument::default();
+            doc.add_text(fields.body, gen_body(&mut rng, seg.profile, j, &table));
+            if seg.profile < 3 || seg.profile == 8 {
+                // `title`: short, with freqs; `basic`: no freqs, frequent terms (>= 128 postings in
+                // the larger segments), lengths spread over several field-norm codes
+                let tl = 1 + rng.usize_below(5);
+                let title: Vec<&str> = (0..tl).map(|_| if rng.chance(1, 3) { "z" } else { TERMS[rng.usize_below(4)] }).collect();
+                doc.add_text(fields.title, title.join(" "));
+                let bmax = if rng.chance(1, 5) { 60 } else { 6 };
+                let bl = 1 + rng.usize_below(bmax);
+                let basic: Vec<&str> = (0..bl).map(|_| match rng.below(6) { 0 | 1 => "a", 2 => "b", 3 => "c", _ => "z" }).collect();
+                doc.add_text(fields.basic, basic.join(" "));
+            }
+            doc.add_u64(fields.id, next_id);
+            let all = j == 0;
+            if all || !rng.chance(1, 10) {
+                doc.add_u64(fields.u, match rng.below(5) { 0 => rng.below(4), 1 => u64::MAX - rng.below(3), 2 => 1 << 63, _ => rng.next_u64() >> rng.below(64) });
+            }
+            if all || !rng.chance(1, 10) {
+                doc.add_i64(fields.i, match rng.below(5) { 0 => rng.below(5) as i64 - 2, 1 => i64::MIN + rng.below(2) as i64, 2 => i64::MAX, _ => (rng.next_u64() >> rng.below(64)) as i64 * if rng.chance(1, 2) { -1 } else { 1 } });
+            }
+            if all || !rng.chance(1, 10) {
+                doc.add_f64(fields.f, match rng.below(6) { 0 => 0.0, 1 => -0.5, 2 => 1e300, 3 => -1e-300, 4 => (rng.below(7) as f64) / 2.0, _ => (rng.next_u64() as f64 / 1e10) - 9e8 });
+            }
+            if all || !rng.chance(1, 10) {
+                doc.add_date(fields.d, DateTime::from_timestamp_secs(rng.below(2_000_000_000) as i64 - if rng.chance(1, 4) { 3_000_000_000 } else { 0 }));
+            }
+            if all || !rng.chance(1, 8) {
+                doc.add_text(fields.s, if rng.chance(2, 3) { STRS[rng.usize_below(STRS.len())].to_string() } else { format!("k{}", rng.below(500)) });
+            }
+            if let Some(ex) = &spec.ties_explicit {
+                doc.add_u64(fields.ties, ex[seg_pos][j]);
+            } else if all || !rng.chance(1, 20) {
+                doc.add_u64(fields.ties, if spec.ties_trend { seg_pos as u64 / 2 + rng.below(2) } else { rng.below(3) });
+            }
+            w.add_document(doc).unwrap();
+            next_id += 1;
+        }
+        w.commit().unwrap();
+    }
+    if spec.delete_permille > 0 && next_id > 0 {
+        let mut rng = Rng(spec.delete_seed);
+        let n = (next_id * spec.delete_permille / 1000).max(1);
+        for _ in 0..n {
+            w.delete_term(Term::from_field_u64(fields.id, rng.below(next_id)));
+        }
+        w.commit().unwrap();
+    }
+    w.wait_merging_threads().unwrap();
+    Built { index, fields, num_docs: next_id as usize }
+}
+
+// ----- exhaustive, non-pruning collector ----------------------------------------------------------
+
+struct AllHits;
+struct AllHitsSeg {
+    ord: u32,
+    hits: Vec<(u32, DocId, Score)>,
+}
+impl Collector for AllHits {
+    type Fruit = Vec<(u32, DocId, Score)>;
+    type Child = AllHitsSeg;
+    fn for_segment(&self, ord: u32, _r: &SegmentReader) -> tantivy::Result<AllHitsSeg> {
+        Ok(AllHitsSeg { ord, hits: vec![] })
+    }
+    fn requires_scoring(&self) -> bool {
+        true
+    }
+    fn merge_fruits(&self, fruits: Vec<Vec<(u32, DocId, Score)>>) -> tantivy::Result<Self::Fruit> {
+        Ok(fruits.into_iter().flatten().collect())
+    }
+}
+impl SegmentCollector for AllHitsSeg {
+    type Fruit = Vec<(u32, DocId, Score)>;
+    fn collect(&mut self, doc: DocId, score: Score) {
+        self.hits.push((self.ord, doc, score));
+    }
+    fn harvest(self) -> Self::Fruit {
+        self.hits
+    }
+}
+
+// ----- custom sort key computer (public trait): `u % m` -----------------------------------------
+
+#[derive(Clone)]
+struct ModKey {
+    m: u64,
+}
+struct ModKeySeg {
+    col: Column<u64>,
+    m: u64,
+}
+impl SortKeyComputer for ModKey {
+    type SortKey = u64;
+    type Child = ModKeySeg;
+    type Comparator = NaturalComparator;
+    fn segment_sort_key_computer(&self, r: &SegmentReader) -> tantivy::Result<ModKeySeg> {
+        Ok(ModKeySeg { col: r.fast_fields().u64("u")?, m: self.m })
+    }
+}
+impl SegmentSortKeyComputer for ModKeySeg {
+    type SortKey = u64;
+    type SegmentSortKey = u64;
+    type SegmentComparator = NaturalComparator;
+    fn segment_sort_key(&mut self, doc: DocId, _score: Score) -> u64 {
+        self.col.first(doc).unwrap_or(0) % self.m
+    }
+    fn convert_segment_sort_key(&self, k: u64) -> u64 {
+        k
+    }
+}
+
+#[derive(Clone)]
+struct LayoutKey {
+    by_segment: std::sync::Arc<std::collections::HashMap<tantivy::index::SegmentId, std::sync::Arc<Vec<u64>>>>,
+}
+struct LayoutSeg {
+    keys: std::sync::Arc<Vec<u64>>,
+}
+impl SortKeyComputer for LayoutKey {
+    type SortKey = u64;
+    type Child = LayoutSeg;
+    type Comparator = NaturalComparator;
+    fn segment_sort_key_computer(&self, r: &SegmentReader) -> tantivy::Result<LayoutSeg> {
+        Ok(LayoutSeg { keys: self.by_segment.get(&r.segment_id()).cloned().unwrap_or_default() })
+    }
+}
+impl SegmentSortKeyComputer for LayoutSeg {
+    type SortKey = u64;
+    type SegmentSortKey = u64;
+    type SegmentComparator = NaturalComparator;
+    fn segment_sort_key(&mut self, doc: DocId, _score: Score) -> u64 {
+        self.keys.get(doc as usize).cloned().unwrap_or(0)
+    }
+    fn convert_segment_sort_key(&self, k: u64) -> u64 {
+        k
+    }
+}
+
+fn tweak_floor(score: Score) -> f32 {
+    (score * 3.0).floor()
+}
+
+/// keys of every hit, read from the same searcher's columns
+fn keys_of(searcher: &Searcher, kind: &Kind, hits: &[(u32, DocId, Score)]) -> Vec<Key> {
+    let readers = searcher.segment_readers();
+    let col_u: Vec<Column<u64>> = readers.iter().map(|r| r.fast_fields().u64("u").unwrap()).collect();
+    let col_t: Vec<Column<u64>> = readers.iter().map(|r| r.fast_fields().u64("ties").unwrap()).collect();
+    let col_i: Vec<Column<i64>> = readers.iter().map(|r| r.fast_fields().i64("i").unwrap()).collect();
+    let col_f: Vec<Column<f64>> = readers.iter().map(|r| r.fast_fields().f64("f").unwrap()).collect();
+    let col_d: Vec<Column<DateTime>> = readers.iter().map(|r| r.fast_fields().date("d").unwrap()).collect();
+    let col_s: Vec<_> = readers.iter().map(|r| r.fast_fields().str("s").unwrap()).collect();
+    let opt = |o: Option<Key>| o.unwrap_or(Key::None);
+    hits.iter()
+        .map(|(seg, doc, score)| {
+            let s = *seg as usize;
+            match kind {
+                Kind::Score => Key::Sc(*score),
+                Kind::FastU64(_) => opt(col_u[s].first(*doc).map(Key::U)),
+                Kind::FastTies(_) => opt(col_t[s].first(*doc).map(Key::U)),
+                Kind::FastI64(_) => opt(col_i[s].first(*doc).map(Key::I)),
+                Kind::FastF64(_) => opt(col_f[s].first(*doc).map(Key::F)),
+                Kind::FastDate(_) => opt(col_d[s].first(*doc).map(|d| Key::I(d.into_timestamp_nanos()))),
+                Kind::FastStr(_) => opt(col_s[s].as_ref().and_then(|c| {
+                    let ord = c.ords().first(*doc)?;
+                    let mut out = String::new();
+                    c.ord_to_str(ord, &mut out).ok()?;
+                    Some(Key::S(out))
+                })),
+                Kind::TweakFloor => Key::Sc(tweak_floor(*score)),
+                Kind::TweakMod => Key::U(col_u[s].first(*doc).unwrap_or(7) % 5),
+                Kind::CustomMod(m, _) => Key::U(col_u[s].first(*doc).unwrap_or(0) % m),
+                Kind::Layout(l) => Key::U(l.get(s).and_then(|v| v.get(*doc as usize)).cloned().unwrap_or(0)),
+                Kind::PairAscDesc => Key::Pair(Box::new(opt(col_t[s].first(*doc).map(Key::U))), Box::new(opt(col_i[s].first(*doc).map(Key::I)))),
+            }
+        })
+        .collect()
+}
+
+fn run_real(searcher: &Searcher, q: &dyn Query, kind: &Kind, k: usize, o: usize) -> Result<Vec<(Key, DocAddress)>, String> {
+    let td = || TopDocs::with_limit(k).and_offset(o);
+    let ord = |asc: bool| if asc { Order::Asc } else { Order::Desc };
+    let optk = |o: Option<Key>| o.unwrap_or(Key::None);
+    let r = catch_unwind(AssertUnwindSafe(|| -> tantivy::Result<Vec<(Key, DocAddress)>> {
+        Ok(match kind {
+            Kind::Score => searcher.search(q, &td().order_by_score())?.into_iter().map(|(s, a)| (Key::Sc(s), a)).collect(),
+            Kind::FastU64(asc) => searcher.search(q, &td().order_by_fast_field::<u64>("u", ord(*asc)))?.into_iter().map(|(v, a)| (optk(v.map(Key::U)), a)).collect(),
+            Kind::FastTies(asc) => searcher.search(q, &td().order_by_fast_field::<u64>("ties", ord(*asc)))?.into_iter().map(|(v, a)| (optk(v.map(Key::U)), a)).collect(),
+            Kind::FastI64(asc) => searcher.search(q, &td().order_by_fast_field::<i64>("i", ord(*asc)))?.into_iter().map(|(v, a)| (optk(v.map(Key::I)), a)).collect(),
+            Kind::FastF64(asc) => searcher.search(q, &td().order_by_fast_field::<f64>("f", ord(*asc)))?.into_iter().map(|(v, a)| (optk(v.map(Key::F)), a)).collect(),
+            Kind::FastDate(asc) => searcher.search(q, &td().order_by_fast_field::<DateTime>("d", ord(*asc)))?.into_iter().map(|(v, a)| (optk(v.map(|d| Key::I(d.into_timestamp_nanos()))), a)).collect(),
+            Kind::FastStr(asc) => searcher.search(q, &td().order_by_string_fast_field("s", ord(*asc)))?.into_iter().map(|(v, a)| (optk(v.map(Key::S)), a)).collect(),
+            Kind::TweakFloor => searcher
+                .search(q, &td().tweak_score(move |_r: &SegmentReader| move |_doc: DocId, score: Score| tweak_floor(score)))?
+                .into_iter().map(|(s, a)| (Key::Sc(s), a)).collect(),
+            Kind::TweakMod => searcher
+                .search(q, &td().tweak_score(move |r: &SegmentReader| {
+                    let col = r.fast_fields().u64("u").unwrap();
+                    move |doc: DocId, _score: Score| col.first(doc).unwrap_or(7) % 5
+                }))?
+                .into_iter().map(|(s, a)| (Key::U(s), a)).collect(),
+            Kind::CustomMod(m, None) => searcher.search(q, &td().order_by(ModKey { m: *m }))?.into_iter().map(|(s, a)| (Key::U(s), a)).collect(),
+            Kind::CustomMod(m, Some(asc)) => searcher.search(q, &td().order_by((ModKey { m: *m }, ord(*asc))))?.into_iter().map(|(s, a)| (Key::U(s), a)).collect(),
+            Kind::Layout(l) => {
+                let map: std::collections::HashMap<_, _> = searcher.segment_readers().iter().enumerate().map(|(i, r)| (r.segment_id(), std::sync::Arc::new(l.get(i).cloned().unwrap_or_default()))).collect();
+                searcher.search(q, &td().order_by(LayoutKey { by_segment: std::sync::Arc::new(map) }))?.into_iter().map(|(s, a)| (Key::U(s), a)).collect()
+            }
+            Kind::PairAscDesc => searcher
+                .search(q, &td().order_by(((SortByStaticFastValue::<u64>::for_field("ties"), Order::Asc), (SortByStaticFastValue::<i64>::for_field("i"), Order::Desc))))?
+                .into_iter().map(|((t, i), a)| (Key::Pair(Box::new(optk(t.map(Key::U))), Box::new(optk(i.map(Key::I)))), a)).collect(),
+        })
+    }));
+    match r {
+        Ok(Ok(v)) => Ok(v),
+        Ok(Err(e)) => Err(format!("error: {e}")),
+        Err(_) => Err("panic".into()),
+    }
+}
+
+fn addr_nat(a: &DocAddress) -> u64 {
+    ((a.segment_ord as u64) << 32) | a.doc_id as u64
+}
+
+/// verified bound hypotheses on this searcher for the terms of a WAND query:
+/// (UB_max witness, UB_block witness)
+fn ub_check(searcher: &Searcher, fields: &Fields, terms: &[String]) -> (Option<String>, Option<String>) {
+    let mut ubmax = None;
+    let mut ubblock = None;
+    for t in terms {
+        let (body, term) = term_of(fields, t);
+        let nofreq = body == fields.basic;
+        let w = match Bm25Weight::for_terms(searcher, &[term.clone()]) { Ok(w) => w, Err(_) => continue };
+        let max = w.max_score();
+        for (ord, sr) in searcher.segment_readers().iter().enumerate() {
+            let inv = sr.inverted_index(body).unwrap();
+            let fnr = sr.get_fieldnorms_reader(body).unwrap();
+            let mut bp = match inv.read_block_postings(&term, IndexRecordOption::WithFreqs) { Ok(Some(b)) => b, _ => continue };
+            loop {
+                let docs = bp.docs().to_vec();
+                if docs.is_empty() {
+                    break;
+                }
+                let freqs = bp.freqs().to_vec();
+                let bm = bp.block_max_score(&fnr, &w);
+                let mut true_max = 0f32;
+                let mut arg = 0;
+                for (d, f) in docs.iter().zip(freqs.iter()) {
+                    // a field indexed without freqs scores every posting with tf = 1
+                    let f = if nofreq { &1u32 } else { f };
+                    let s = w.score(fnr.fieldnorm_id(*d), *f);
+                    if s > max && ubmax.is_none() {
+                        ubmax = Some(format!("term {t:?}: doc ({ord},{d}) tf={f} fieldnorm_id={} scores {s:?} > max_score {max:?}", fnr.fieldnorm_id(*d)));
+                    }
+                    if s > true_max {
+                        true_max = s;
+                        arg = *d;
+                    }
+                }
+                if true_max > bm && ubblock.is_none() {
+                    ubblock = Some(format!("term {t:?}: segment {ord} block ending at doc {}: doc {arg} scores {true_max:?} > block_max_score {bm:?} under the searcher's statistics", docs[docs.len() - 1]));
+                }
+                bp.advance();
+            }
+        }
+    }
+    (ubmax, ubblock)
+}
+
+/// Signature of the recorded defect "TermWeight::for_each_pruning runs block_wand_single_scorer on
+/// a term whose field has no freqs": the field is indexed with IndexRecordOption::Basic and some
+/// block of the term's postings has a block_max_score of exactly 0 (no block-WAND metadata is
+/// written without freqs; the last block's maximum is computed from term freqs that were never
+/// decoded) although its documents score > 0.
+fn nofreq_signature(searcher: &Searcher, fields: &Fields, t: &str) -> Option<String> {
+    let (field, term) = term_of(fields, t);
+    if field != fields.basic {
+        return None;
+    }
+    let w = Bm25Weight::for_terms(searcher, &[term.clone()]).ok()?;
+    for (ord, sr) in searcher.segment_readers().iter().enumerate() {
+        let inv = sr.inverted_index(field).ok()?;
+        let fnr = sr.get_fieldnorms_reader(field).ok()?;
+        let Ok(Some(mut bp)) = inv.read_block_postings(&term, IndexRecordOption::WithFreqs) else { continue };
+        loop {
+            let docs = bp.docs().to_vec();
+            if docs.is_empty() {
+                break;
+            }
+            let bm = bp.block_max_score(&fnr, &w);
+            let best = docs.iter().map(|d| w.score(fnr.fieldnorm_id(*d), 1)).fold(0f32, f32::max);
+            if bm == 0.0 && best > 0.0 {
+                return Some(format!("field `basic` is indexed without freqs; segment {ord}: the block of {} postings ending at doc {} has block_max_score 0 although its documents score up to {best:?}", docs.len(), docs[docs.len() - 1]));
+            }
+            bp.advance();
+        }
+    }
+    None
+}
+
+struct QueryEval {
+    q: Q,
+    query: Box<dyn Query>,
+    hits: Vec<(u32, DocId, Score)>,
+}
+
+fn ulp_tol(clauses: usize, a: f32, b: f32) -> f32 {
+    // documented tolerance for a score that is a float sum over `clauses` clauses evaluated in
+    // two different orders: 4 ulp per clause
+    4.0 * clauses as f32 * f32::EPSILON * a.abs().max(b.abs()).max(f32::MIN_POSITIVE)
+}
+
+/// compare a TopDocs result with the expected slice of the exhaustive list: exactly, or (float
+/// sums over `n` clauses) rank by rank within the tolerance
+fn compare_result(all: &[(Key, u64)], expected: &[(Key, u64)], real: &[(Key, u64)], o: usize, exact: bool, n: usize) -> Option<String> {
+    let mut wrong: Option<String> = None;
+    if real.len() != expected.len() {
+        wrong = Some(format!("returned {} entries, expected {}", real.len(), expected.len()));
+    } else if exact {
+        if let Some(p) = (0..real.len()).find(|p| real[*p] != expected[*p]) {
+            wrong = Some(format!("entry {p}: got ({}, {}:{}) expected ({}, {}:{})", real[p].0.show(), real[p].1 >> 32, real[p].1 & 0xffff_ffff, expected[p].0.show(), expected[p].1 >> 32, expected[p].1 & 0xffff_ffff));
+        }
+    } else {
+        // float sums over several clauses: ranks must agree up to the tolerance, each returned
+        // key must be the document's own key up to the tolerance, no document twice
+        let own: std::collections::HashMap<u64, f32> = all.iter().map(|(k, a)| (*a, if let Key::Sc(s) = k { *s } else { 0.0 })).collect();
+        let mut seen = std::collections::HashSet::new();
+        for p in 0..real.len() {
+            let (Key::Sc(rs), Key::Sc(es)) = (&real[p].0, &expected[p].0) else { wrong = Some("key type".into()); break };
+            if !seen.insert(real[p].1) {
+                wrong = Some(format!("document {}:{} returned twice", real[p].1 >> 32, real[p].1 & 0xffff_ffff));
+                break;
+            }
+            match own.get(&real[p].1) {
+                None => { wrong = Some(format!("entry {p}: document {}:{} does not match the query", real[p].1 >> 32, real[p].1 & 0xffff_ffff)); break }
+                Some(s) if (s - rs).abs() > ulp_tol(n, *s, *rs) => { wrong = Some(format!("entry {p}: returned score {rs:?} but the document's score is {s:?}")); break }
+                _ => {}
+            }
+            if (rs - es).abs() > ulp_tol(n, *rs, *es) {
+                wrong = Some(format!("entry {p}: score {rs:?} (doc {}:{}) but the {}-th best score is {es:?} (doc {}:{})", real[p].1 >> 32, real[p].1 & 0xffff_ffff, o + p, expected[p].1 >> 32, expected[p].1 & 0xffff_ffff));
+                break;
+            }
+            if p > 0 {
+                if let Key::Sc(prev) = &real[p - 1].0 {
+                    if prev < rs || (prev == rs && real[p - 1].1 > real[p].1) {
+                        wrong = Some(format!("entries {} and {p} are out of order", p - 1));
+                        break;
+                    }
+                }
+            }
+        }
+    }
+    wrong
+}
+
+thread_local! {
+    /// paging runs evaluate the model's `topK` on the first page only (the model sorts by insertion)
+    static SKIP_MODEL_SPEC: std::cell::Cell<bool> = const { std::cell::Cell::new(false) };
+}
+
+#[allow(clippy::too_many_arguments)]
+fn check_search(ctx: &mut Ctx, spec: &CorpusSpec, built: &Built, searcher: &Searcher, threads: usize, qe: &QueryEval, kind: &Kind, k: usize, o: usize) -> bool {
+    let case = json!({"kind": "search", "corpus": spec.to_json(), "query": qe.q.to_json(), "collector": kind_to_json(kind), "k": k, "offset": o, "threads": threads, "segment_order": segment_order(searcher)});
+    let keys = keys_of(searcher, kind, &qe.hits);
+    let mut all: Vec<(Key, u64)> = keys.into_iter().zip(qe.hits.iter().map(|(s, d, _)| ((*s as u64) << 32) | *d as u64)).collect();
+    all.sort_by(|a, b| kind.cmp(&a.0, &b.0).then(a.1.cmp(&b.1)));
+    let expected: Vec<(Key, u64)> = all.iter().skip(o).take(k).cloned().collect();
+    let exact = !kind.uses_score() || qe.q.clauses() <= 1;
+    ctx.report.count(&format!("collector:{}", kind.name().split('(').next().unwrap()));
+    ctx.report.count(&format!("path:{}", if *kind == Kind::Score { qe.q.path() } else { "no-pruning" }));
+    ctx.report.count(if o == 0 { "offset:0" } else if o >= all.len() { "offset:beyond-end" } else { "offset:inside" });
+    ctx.report.count(if k >= all.len() { "k:>=matches" } else if k == 1 { "k:1" } else { "k:other" });
+    ctx.report.count(&format!("threads:{threads}"));
+    let canon = format!("{}|{}|{}|{k}|{o}|{threads}", spec.to_json(), qe.q.to_json(), kind.name());
+    let nontrivial = all.len() > k + o && spec.segs.len() >= 1 && !all.is_empty();
+    ctx.report.case(&canon, nontrivial);
+    let real = match run_real(searcher, qe.query.as_ref(), kind, k, o) {
+        Ok(r) => r,
+        Err(e) => {
+            ctx.report.violation("oracle", if e == "panic" { "C06:search-panic" } else { "C06:search-error" }, format!("TopDocs({k}, offset {o}) by {} on {}: {e}", kind.name(), qe.q.to_json()), case);
+            return false;
+        }
+    };
+    let real: Vec<(Key, u64)> = real.into_iter().map(|(k, a)| (k, addr_nat(&a))).collect();
+    let mut wrong: Option<String> = compare_result(&all, &expected, &real, o, exact, qe.q.clauses());
+    // the specification evaluated by the model on the same exhaustive list (ranks preserve the order)
+    if wrong.is_none() && exact && all.len() <= 2500 && !SKIP_MODEL_SPEC.with(|c| c.get()) {
+        let mut ranks: Vec<i64> = Vec::with_capacity(all.len());
+        let mut r: i64 = 0;
+        for p in 0..all.len() {
+            if p > 0 && kind.cmp(&all[p - 1].0, &all[p].0) != Ordering::Equal {
+                r -= 1;
+            }
+            ranks.push(r);
+        }
+        // shuffle deterministically so that the model really sorts
+        let mut idx: Vec<usize> = (0..all.len()).collect();
+        let mut rr = Rng(all.len() as u64 ^ 0xabcdef);
+        rr.shuffle(&mut idx);
+        let resp = ctx.model.ask(&format!("C06 topk {k} {o} desc {} {}", nat_list(&idx.iter().map(|p| ranks[*p]).collect::<Vec<_>>()), nat_list(&idx.iter().map(|p| all[*p].1).collect::<Vec<_>>())));
+        let got: Vec<u64> = real.iter().map(|(_, a)| *a).collect();
+        let model: Vec<u64> = if resp == "-" { vec![] } else { resp.split(',').filter_map(|e| e.split('@').nth(1)?.parse().ok()).collect() };
+        ctx.report.count("spec-by-model");
+        if model != got {
+            wrong = Some(format!("result differs from the model's topK: model {:?}… real {:?}…", &model[..model.len().min(5)], &got[..got.len().min(5)]));
+        }
+    }
+    let Some(what) = wrong else { return true };
+    // attribution: only to a named hypothesis verified to fail on this very case
+    let mut key = "C06:topk-wrong".to_string();
+    let mut extra = String::new();
+    if exact {
+        if let Some(w) = merge_tie_signature(kind, &all, &real, &expected, k, o) {
+            key = "C06:merge-ties-unsorted-fruits".into();
+            extra = format!(" [{w}]");
+        }
+    }
+    // recorded defect: a term of a field indexed without freqs through block_wand_single_scorer
+    if key == "C06:topk-wrong" && *kind == Kind::Score {
+        if let Q::Term(t) = &qe.q {
+            if let Some(w) = nofreq_signature(searcher, &built.fields, t) {
+                key = "C06:nofreq-term-blockmax-zero".into();
+                extra = format!(" [{w}]");
+            }
+        }
+    }
+    // recorded defect: a dis-max over term queries goes through block_wand, which sums the clauses.
+    // Attributed only if the result IS the top-K of the clause sums (the same searcher's exhaustive
+    // scores of the union of the same terms).
+    if key == "C06:topk-wrong" && *kind == Kind::Score {
+        if let Q::DisMax(ts, _) = &qe.q {
+            let uq = Q::Union(ts.clone());
+            let union_hits = eval_queries(built, searcher, vec![uq]);
+            if let Some(u) = union_hits.first() {
+                let mut all_sum: Vec<(Key, u64)> = u.hits.iter().map(|(s, d, sc)| (Key::Sc(*sc), ((*s as u64) << 32) | *d as u64)).collect();
+                all_sum.sort_by(|a, b| kind.cmp(&a.0, &b.0).then(a.1.cmp(&b.1)));
+                let exp_sum: Vec<(Key, u64)> = all_sum.iter().skip(o).take(k).cloned().collect();
+                if compare_result(&all_sum, &exp_sum, &real, o, ts.len() <= 2, ts.len()).is_none() {
+                    key = "C06:dismax-topdocs-block-wand-sums".into();
+                    extra = " [the result is exactly the top-K of the SUMS of the matching clauses' scores, not of max + tie·rest]".into();
+                }
+            }
+        }
+    }
+    if key == "C06:topk-wrong" && *kind == Kind::Score {
+        if let Some(terms) = qe.q.wand_terms() {
+            let (ubmax, ubblock) = ub_check(searcher, &built.fields, &terms);
+            // the single-scorer driver reads block bounds first (max_score only as a fallback),
+            // the multi-scorer drivers select the pivot with max_score first
+            let single = terms.len() == 1;
+            match (ubmax, ubblock) {
+                (_, Some(w)) if single => { key = "C06:blockmax-pair-wrong-avg-fieldnorm".into(); extra = format!(" [UB_block fails: {w}]"); }
+                (Some(w), _) => { key = "C06:maxscore-not-upper-bound".into(); extra = format!(" [UB_max fails: {w}]"); }
+                (None, Some(w)) => { key = "C06:blockmax-pair-wrong-avg-fieldnorm".into(); extra = format!(" [UB_block fails: {w}]"); }
+                (None, None) => {}
+            }
+        }
+    } else if key == "C06:topk-wrong" && !exact {
+        key = "C06:topk-wrong-tolerance".into();
+    }
+    ctx.report.violation("oracle", &key, format!("TopDocs(limit {k}, offset {o}) by {} on {} over {} segments ({} matches, {threads} thread(s), path {}): {what}{extra}", kind.name(), qe.q.to_json(), searcher.segment_readers().len(), all.len(), if *kind == Kind::Score { qe.q.path() } else { "no-pruning" }), case);
+    false
+}
+
+/// Signature of the recorded defect "merge_top_k pushes unsorted per-segment fruits": the result
+/// differs from the expected one ONLY in which of several documents tying on the boundary key
+/// were taken, at least three segments contribute more than 2·(K+O) fruit entries (so that the
+/// merge `TopNComputer` truncates at all), AND a replica of the pipeline built from the real
+/// `TopNComputer` (per-segment `into_vec`, merge in fruit order) reproduces exactly the observed
+/// result. Anything else is not attributed.
+fn merge_tie_signature(kind: &Kind, all: &[(Key, u64)], real: &[(Key, u64)], expected: &[(Key, u64)], k: usize, o: usize) -> Option<String> {
+    let n = k + o;
+    if real.len() != expected.len() || real.is_empty() {
+        return None;
+    }
+    let own: std::collections::HashMap<u64, &Key> = all.iter().map(|(k, a)| (*a, k)).collect();
+    let boundary = &all[n.min(all.len()) - 1].0;
+    for p in 0..real.len() {
+        if kind.cmp(&real[p].0, &expected[p].0) != Ordering::Equal {
+            return None;
+        }
+        match own.get(&real[p].1) {
+            Some(kk) if **kk == real[p].0 => {}
+            _ => return None,
+        }
+        if real[p].1 != expected[p].1 && kind.cmp(&real[p].0, boundary) != Ordering::Equal {
+            return None;
+        }
+        if p > 0 && (kind.cmp(&real[p - 1].0, &real[p].0) == Ordering::Greater || (kind.cmp(&real[p - 1].0, &real[p].0) == Ordering::Equal && real[p - 1].1 >= real[p].1)) {
+            return None;
+        }
+    }
+    // per-segment lists in doc order, keys as order-preserving ranks
+    let mut ranks: std::collections::HashMap<u64, i64> = std::collections::HashMap::new();
+    let mut r: i64 = 0;
+    for p in 0..all.len() {
+        if p > 0 && kind.cmp(&all[p - 1].0, &all[p].0) != Ordering::Equal {
+            r -= 1;
+        }
+        ranks.insert(all[p].1, r);
+    }
+    let nseg = all.iter().map(|(_, a)| (a >> 32) as usize + 1).max().unwrap_or(0);
+    let mut segs: Vec<Vec<(i64, u32)>> = vec![vec![]; nseg];
+    for (_, a) in all {
+        segs[(a >> 32) as usize].push((ranks[a], (*a & 0xffff_ffff) as u32));
+    }
+    for sdocs in segs.iter_mut() {
+        sdocs.sort_by_key(|x| x.1);
+    }
+    let fruit_total: usize = segs.iter().map(|s| s.len().min(n)).sum();
+    let contributing = segs.iter().filter(|s| !s.is_empty()).count();
+    if contributing < 3 || fruit_total <= 2 * n {
+        return None;
+    }
+    let replica: Vec<u64> = pipeline_replica(n, &segs, *kind == Kind::Score).into_iter().skip(o).map(|(_, (s, d))| ((s as u64) << 32) | d as u64).collect();
+    let got: Vec<u64> = real.iter().map(|(_, a)| *a).collect();
+    if replica != got {
+        return None;
+    }
+    Some(format!("only the choice among documents tying on the boundary key differs; {contributing} segments, {fruit_total} fruit entries > 2·{n}; a replica of merge_top_k over the real TopNComputer's unsorted per-segment fruits reproduces exactly this result"))
+}
+
+fn kind_to_json(k: &Kind) -> Value {
+    match k {
+        Kind::Score => json!("score"),
+        Kind::FastU64(a) => json!(["u64", a]),
+        Kind::FastI64(a) => json!(["i64", a]),
+        Kind::FastF64(a) => json!(["f64", a]),
+        Kind::FastDate(a) => json!(["date", a]),
+        Kind::FastStr(a) => json!(["str", a]),
+        Kind::FastTies(a) => json!(["ties", a]),
+        Kind::TweakFloor => json!("tweak-floor"),
+        Kind::TweakMod => json!("tweak-mod"),
+        Kind::CustomMod(m, o) => json!(["custom-mod", m, o]),
+        Kind::PairAscDesc => json!("pair"),
+        Kind::Layout(l) => json!(["layout", **l]),
+    }
+}
+
+fn kind_from_json(v: &Value) -> Option<Kind> {
+    if let Some(s) = v.as_str() {
+        return match s { "score" => Some(Kind::Score), "tweak-floor" => Some(Kind::TweakFloor), "tweak-mod" => Some(Kind::TweakMod), "pair" => Some(Kind::PairAscDesc), _ => None };
+    }
+    let a = v.as_array()?;
+    let asc = a.get(1).and_then(|x| x.as_bool());
+    match a[0].as_str()? {
+        "u64" => Some(Kind::FastU64(asc?)),
+        "i64" => Some(Kind::FastI64(asc?)),
+        "f64" => Some(Kind::FastF64(asc?)),
+        "date" => Some(Kind::FastDate(asc?)),
+        "str" => Some(Kind::FastStr(asc?)),
+        "ties" => Some(Kind::FastTies(asc?)),
+        "custom-mod" => Some(Kind::CustomMod(a[1].as_u64()?, a.get(2).and_then(|x| x.as_bool()))),
+        "layout" => Some(Kind::Layout(std::sync::Arc::new(a[1].as_array()?.iter().map(|s| s.as_array().map(|x| x.iter().filter_map(|y| y.as_u64()).collect()).unwrap_or_default()).collect()))),
+        _ => None,
+    }
+}
+
+fn gen_query(rng: &mut Rng) -> Q {
+    let term = |rng: &mut Rng| -> String { TERMS[match rng.below(10) { 0..=3 => 0, 4 | 5 => 1, 6 => 2, 7 => 3, 8 => 4, _ => 5 }].to_string() };
+    // terms of the three tokenized fields: mostly `body`; `t:` = title (freqs), `n:` = basic (no freqs)
+    let terms = |rng: &mut Rng, n: usize| -> Vec<String> {
+        let mut ts: Vec<String> = TERMS.iter().map(|s| s.to_string()).collect();
+        ts.extend(["t:a", "t:b", "t:c", "n:a", "n:b"].iter().map(|s| s.to_string()));
+        rng.shuffle(&mut ts);
+        // keep most queries on `body` only: the other fields appear in about a third of them
+        if !rng.chance(1, 3) { ts.retain(|t| !t.contains(':')); }
+        ts.truncate(n);
+        ts
+    };
+    match rng.below(21) {
+        16 => Q::Term(["n:a", "n:b", "n:c", "t:a"][rng.usize_below(4)].to_string()),
+        17 | 18 => { let n = 2 + rng.usize_below(3); let mut ts = terms(rng, n); ts.retain(|t| !t.starts_with("n:")); if ts.len() < 2 { ts = vec!["a".into(), "b".into()]; } Q::DisMax(ts, [0.0f32, 0.3, 1.0][rng.usize_below(3)]) }
+        0..=2 => Q::Term(term(rng)),
+        3..=6 => { let n = 2 + rng.usize_below(4); Q::Union(terms(rng, n)) }
+        7 | 8 => { let n = 2 + rng.usize_below(4); Q::Inter(terms(rng, n)) }
+        19 | 20 => { let mut ts: Vec<String> = TERMS[..5].iter().map(|s| s.to_string()).collect(); rng.shuffle(&mut ts); let n = 3 + rng.usize_below(3); ts.truncate(n); Q::Inter(ts) }
+        9 => { let ts = terms(rng, 4); Q::Mix { must: ts[..1].to_vec(), should: ts[1..3].to_vec(), not: ts[3..].to_vec() } }
+        10 => { let ts = terms(rng, 3); Q::Mix { must: vec![], should: ts[..2].to_vec(), not: ts[2..].to_vec() } }
+        11 => Q::Boost(Box::new(Q::Term(term(rng))), [0.5f32, 2.0, 3.25][rng.usize_below(3)]),
+        12 => Q::Const(Box::new(Q::Union(terms(rng, 2))), [1.0f32, 0.25][rng.usize_below(2)]),
+        13 => { let ts = terms(rng, 4); Q::Nested(vec![(1, Q::Inter(ts[..2].to_vec())), (1, Q::Boost(Box::new(Q::Term(ts[2].clone())), 2.0)), (1, Q::Const(Box::new(Q::Term(ts[3].clone())), 1.5))]) }
+        14 => { let ts = terms(rng, 3); Q::Nested(vec![(0, Q::Union(ts[..2].to_vec())), (1, Q::Term(ts[2].clone()))]) }
+        _ => Q::All,
+    }
+}
+
+fn gen_kind(rng: &mut Rng) -> Kind {
+    let asc = rng.chance(1, 2);
+    match rng.below(20) {
+        0..=6 => Kind::Score,
+        7 => Kind::FastU64(asc),
+        8 => Kind::FastI64(asc),
+        9 => Kind::FastF64(asc),
+        10 => Kind::FastDate(asc),
+        11 => Kind::FastStr(asc),
+        12 | 13 => Kind::FastTies(asc),
+        14 => Kind::TweakFloor,
+        15 => Kind::TweakMod,
+        16 => Kind::CustomMod(1 + rng.below(4), None),
+        17 => Kind::CustomMod(2 + rng.below(4), Some(asc)),
+        _ => Kind::PairAscDesc,
+    }
+}
+
+fn gen_corpus(rng: &mut Rng, flavour: u64, thorough: bool) -> CorpusSpec {
+    let big = if thorough { 3 } else { 1 };
+    let nseg = match flavour { 0 => 1, 1 => 2, 5 => 3 + rng.usize_below(4), 6 => 1 + rng.usize_below(2), _ => 1 + rng.usize_below(6) };
+    let mut segs = vec![];
+    for s in 0..nseg {
+        let profile: u8 = match flavour {
+            // clean single segment: the bounds hold exactly, any wrong top-K is a violation
+            0 => [0u8, 1, 1, 2][rng.usize_below(4)],
+            // F5 neighbourhood: single-term documents + a long posting list of another term
+            3 => if s == 0 { 3 } else { [0u8, 1, 5][rng.usize_below(3)] },
+            // S3 neighbourhood: very different average lengths across segments
+            4 => if s == 0 { 4 } else { [5u8, 2, 0][rng.usize_below(3)] },
+            // ties neighbourhood: scores / keys tie massively and improve with the segment ordinal
+            5 => if s < 2 { 6 } else { 7 },
+            // length trend inside a segment (stale block bounds are far too low later on)
+            6 => if s == 0 { 8 } else { [8u8, 0, 1][rng.usize_below(3)] },
+            _ => [0u8, 1, 1, 1, 2, 0][rng.usize_below(6)],
+        };
+        let docs = match profile {
+            2 => [1usize, 30, 129, 300][rng.usize_below(4)],
+            3 => [2usize, 60, 200][rng.usize_below(3)],
+            4 => 128 + 128 + 50,
+            5 => [200usize, 3000 * big, 5000 * big][rng.usize_below(3)],
+            6 | 7 => [3usize, 20, 60, 150, 400][rng.usize_below(5)],
+            8 => [1500usize, 3000, 4500][rng.usize_below(3)],
+            0 => [1usize, 127, 128, 129, 1000, 4097, 4500 * big][rng.usize_below(7)],
+            _ => [1usize, 50, 128, 129, 400, 1500 * big, 4200][rng.usize_below(7)],
+        };
+        segs.push(SegSpec { seed: rng.next_u64(), docs, profile });
+    }
+    let delete_permille = match flavour { 0 | 4 | 6 => 0, 5 => [0u64, 0, 50][rng.usize_below(3)], _ => [0u64, 0, 5, 50, 300][rng.usize_below(5)] };
+    CorpusSpec { segs, delete_seed: rng.next_u64(), delete_permille, ties_trend: flavour == 5, ties_explicit: None }
+}
+
+fn eval_queries(built: &Built, searcher: &Searcher, qs: Vec<Q>) -> Vec<QueryEval> {
+    qs.into_iter()
+        .filter_map(|q| {
+            let query = q.build(&built.fields);
+            let hits = catch_unwind(AssertUnwindSafe(|| searcher.search(query.as_ref(), &AllHits))).ok()?.ok()?;
+            Some(QueryEval { q, query, hits })
+        })
+        .collect()
+}
+
+fn searchers(built: &Built) -> Vec<(usize, Searcher)> {
+    let s1 = built.index.reader().unwrap().searcher();
+    let mut idx2 = built.index.clone();
+    let mut out = vec![(1usize, s1)];
+    if idx2.set_multithread_executor(3).is_ok() {
+        out.push((3usize, idx2.reader().unwrap().searcher()));
+    }
+    out
+}
+
+fn corpus_run(ctx: &mut Ctx, spec: &CorpusSpec, rng: &mut Rng, n_queries: usize, n_searches: usize) {
+    let t_build = std::time::Instant::now();
+    let built = build(spec);
+    ctx.report.count_n("millis:build", t_build.elapsed().as_millis() as u64);
+    let ss = searchers(&built);
+    let mut qs: Vec<Q> = vec![Q::Term("a".into()), Q::Union(vec!["a".into(), "b".into()])];
+    for _ in 0..n_queries {
+        qs.push(gen_query(rng));
+    }
+    let evals = eval_queries(&built, &ss[0].1, qs);
+    ctx.report.count_n("segments-total", ss[0].1.segment_readers().len() as u64);
+    ctx.report.count(&format!("segments:{}", ss[0].1.segment_readers().len()));
+    if ss[0].1.segment_readers().iter().any(|r| r.has_deletes()) {
+        ctx.report.count("corpus:with-deletes");
+    }
+    if spec.segs.iter().any(|s| s.docs > 4096) {
+        ctx.report.count("corpus:segment>4096");
+    }
+    for (qi, qe) in evals.iter().enumerate() {
+        let m = qe.hits.len();
+        ctx.report.count(&format!("query-matches:{}", match m { 0 => "0", 1..=127 => "1-127", 128..=4096 => "128-4096", _ => ">4096" }));
+        for si in 0..n_searches {
+            let kind = if si == 0 { Kind::Score } else if spec.ties_trend && rng.chance(1, 2) { [Kind::FastTies(false), Kind::FastTies(true), Kind::Score, Kind::CustomMod(2, None)][rng.usize_below(4)].clone() } else { gen_kind(rng) };
+            let k = if spec.ties_trend && rng.chance(2, 3) { 4 + rng.usize_below(60) } else { 0 };
+            let k = if k > 0 { k } else { match rng.below(8) { 0 | 1 => 1, 2 => 2, 3 => 10, 4 => m.max(1), 5 => m + 5, 6 => 1 + rng.usize_below(m.max(1)), _ => 1 + rng.usize_below(40) } };
+            let o = match rng.below(8) { 0..=3 => 0, 4 => rng.usize_below(m + 1), 5 => m, 6 => m + 3, _ => rng.usize_below(20) };
+            let (threads, searcher) = &ss[if rng.chance(1, 3) { ss.len() - 1 } else { 0 }];
+            check_search(ctx, spec, &built, searcher, *threads, qe, &kind, k, o);
+        }
+        // paging over successive offsets: every match exactly once (exactly comparable keys)
+        let t_page = std::time::Instant::now();
+        if qi % 3 == 0 && m > 0 && m <= 3000 {
+            let kind = loop { let k = gen_kind(rng); if !k.uses_score() || qe.q.clauses() <= 1 { break k } };
+            let k = (1 + rng.usize_below(m.min(64))).max(m / 30);
+            let (threads, searcher) = &ss[if rng.chance(1, 2) { ss.len() - 1 } else { 0 }];
+            let mut pages: Vec<u64> = vec![];
+            let mut o = 0;
+            let mut ok = true;
+            // every page is itself a checked (and, on failure, attributed) search
+            let mut pages_ok = true;
+            loop {
+                SKIP_MODEL_SPEC.with(|c| c.set(o > 0));
+                pages_ok &= check_search(ctx, spec, &built, searcher, *threads, qe, &kind, k, o);
+                SKIP_MODEL_SPEC.with(|c| c.set(false));
+                match run_real(searcher, qe.query.as_ref(), &kind, k, o) {
+                    Ok(p) if p.is_empty() => break,
+                    Ok(p) => pages.extend(p.iter().map(|(_, a)| addr_nat(a))),
+                    Err(_) => { ok = false; break }
+                }
+                o += k;
+                if o > m + 2 * k { break }
+            }
+            let mut sorted = pages.clone();
+            sorted.sort();
+            let mut exp: Vec<u64> = qe.hits.iter().map(|(s, d, _)| ((*s as u64) << 32) | *d as u64).collect();
+            exp.sort();
+            ctx.report.count("paging-runs");
+            ctx.report.case(&format!("paging|{}|{}|{}|{k}", spec.to_json(), qe.q.to_json(), kind.name()), m > k);
+            ctx.report.count_n("millis:paging", t_page.elapsed().as_millis() as u64);
+            if pages_ok && (!ok || sorted != exp) {
+                ctx.report.violation("oracle", "C06:paging-not-a-partition", format!("pages of {k} by {} over {} ({threads} thread(s)) enumerate {} entries ({} distinct) for {m} matches", kind.name(), qe.q.to_json(), pages.len(), { let mut d = sorted.clone(); d.dedup(); d.len() }), json!({"kind": "paging", "corpus": spec.to_json(), "query": qe.q.to_json(), "collector": kind_to_json(&kind), "k": k, "threads": threads}));
+            }
+        }
+    }
+    let t_drv = std::time::Instant::now();
+    driver_run(ctx, spec, &built, &ss[0].1, rng, 12);
+    ctx.report.count_n("millis:driver", t_drv.elapsed().as_millis() as u64);
+    let _ = built.num_docs;
+}
+
+/// Replica-guided search around tie-breaking in `merge_top_k`: find key layouts on which a replica
+/// built from the real `TopNComputer` breaks ties differently from the specification, index them
+/// (column `ties`) and run the real `Searcher::search`.
+fn guided_ties(ctx: &mut Ctx, want: usize, max_iter: u64) {
+    let mut rng = ctx.rng.fork();
+    let mut built_n = 0;
+    for it in 0..max_iter {
+        if built_n >= want {
+            break;
+        }
+        let (n, mut segs) = gen_tie_segments(&mut rng);
+        // all segments padded to equal size (key 0 = below every other key): the layout can then
+        // be applied whatever (random) order the searcher lists the segments in
+        let size = segs.iter().map(|d| d.len()).max().unwrap_or(1);
+        for d in segs.iter_mut() {
+            for e in d.iter_mut() { e.0 += 1; }
+            while d.len() < size { d.push((0, d.len() as u32)); }
+        }
+        let got = pipeline_replica(n, &segs, false);
+        let mut exp: Vec<(i64, (u32, u32))> = segs.iter().enumerate().flat_map(|(s, docs)| docs.iter().map(move |(k, d)| (*k, (s as u32, *d)))).collect();
+        exp.sort_by(|a, b| b.0.cmp(&a.0).then(a.1.cmp(&b.1)));
+        exp.truncate(n);
+        // most guided cases are layouts where the replica goes wrong; some are taken blindly
+        if got == exp && it % 2048 != 0 {
+            continue;
+        }
+        built_n += 1;
+        ctx.report.count(if got == exp { "guided-ties:blind" } else { "guided-ties:replica-mismatch" });
+        let spec = CorpusSpec {
+            segs: segs.iter().map(|_| SegSpec { seed: rng.next_u64(), docs: size, profile: 6 }).collect(),
+            delete_seed: 0,
+            delete_permille: 0,
+            ties_trend: false,
+            ties_explicit: None,
+        };
+        let built = build(&spec);
+        let ss = searchers(&built);
+        let layout: Vec<Vec<u64>> = segs.iter().map(|d| d.iter().map(|(k, _)| *k as u64).collect()).collect();
+        let kind = Kind::Layout(std::sync::Arc::new(layout));
+        let evals = eval_queries(&built, &ss[0].1, vec![Q::All, Q::Term("a".into())]);
+        for qe in &evals {
+            let o = if rng.chance(1, 2) { 0 } else { rng.usize_below(n) };
+            for (threads, searcher) in &ss {
+                check_search(ctx, &spec, &built, searcher, *threads, qe, &kind, n - o, o);
+            }
+        }
+    }
+}
+
+// ---------------------------------------------------------------------------------------------
+// (C) the pruning drivers under arbitrary callbacks: Weight::for_each_pruning (public) vs the
+//     exhaustive loop over Weight::for_each, same callback policy
+// ---------------------------------------------------------------------------------------------
+
+#[derive(Clone, Debug)]
+enum Policy {
+    /// the callback always returns the same threshold
+    Const(u32),
+    /// the callback returns the score it was just offered (only strictly increasing scores pass)
+    Staircase,
+    /// the callback keeps the K best scores and returns the K-th best (what TopDocs does)
+    KthBest(usize),
+}
+
+struct PolicyState {
+    policy: Policy,
+    best: Vec<f32>,
+    theta: f32,
+}
+
+impl PolicyState {
+    fn new(policy: Policy, initial: f32) -> PolicyState {
+        PolicyState { policy, best: vec![], theta: initial }
+    }
+    fn call(&mut self, score: f32) -> f32 {
+        self.theta = match &self.policy {
+            Policy::Const(b) => f32::from_bits(*b).max(self.theta),
+            Policy::Staircase => score.max(self.theta),
+            Policy::KthBest(k) => {
+                self.best.push(score);
+                self.best.sort_by(|a, b| b.partial_cmp(a).unwrap());
+                self.best.truncate(*k);
+                // thresholds never decrease (the contract the multi-scorer drivers rely on)
+                if self.best.len() == *k { self.best[*k - 1].max(self.theta) } else { self.theta }
+            }
+        };
+        self.theta
+    }
+}
+
+/// order-preserving natural for a score / bound / threshold (non-positive values, incl. the
+/// `Score::MIN` sentinel, map to 0; BM25 scores are positive)
+fn score_key(x: f32) -> u64 {
+    if x > 0.0 { x.to_bits() as u64 + 1 } else { 0 }
+}
+
+fn model_wand_single(ctx: &mut Ctx, searcher: &Searcher, reader: &SegmentReader, field: Field, term: &Term, policy: &Policy, initial: f32) -> Option<String> {
+    let w = Bm25Weight::for_terms(searcher, &[term.clone()]).ok()?;
+    let inv = reader.inverted_index(field).ok()?;
+    let fnr = reader.get_fieldnorms_reader(field).ok()?;
+    let mut bp = inv.read_block_postings(term, IndexRecordOption::WithFreqs).ok()??;
+    let doc_freq = bp.doc_freq();
+    let mut blocks: Vec<String> = vec![];
+    loop {
+        let docs = bp.docs().to_vec();
+        if docs.is_empty() {
+            break;
+        }
+        let freqs = bp.freqs().to_vec();
+        // full blocks carry a stored bound; a short posting list is loaded when opened (true
+        // maximum); the trailing partial block of a longer list is reached by a shallow seek and
+        // is bounded by `max_score` until it is loaded
+        let bm = if docs.len() == 128 || doc_freq < 128 { bp.block_max_score(&fnr, &w) } else { w.max_score() };
+        let body: Vec<String> = docs.iter().zip(freqs.iter()).map(|(d, f)| format!("{d}@{}", score_key(w.score(fnr.fieldnorm_id(*d), *f)))).collect();
+        blocks.push(format!("{}:{}", score_key(bm), body.join(",")));
+        bp.advance();
+    }
+    if blocks.len() > 40 {
+        return None; // keep the request lines small
+    }
+    let (pol, arg) = match policy { Policy::Const(b) => ("const", score_key(f32::from_bits(*b))), Policy::Staircase => ("stair", 0), Policy::KthBest(k) => ("kth", *k as u64) };
+    Some(ctx.model.ask(&format!("C06 wand1 {pol} {arg} {} {}", score_key(initial), if blocks.is_empty() { "-".to_string() } else { blocks.join(";") })))
+}
+
+fn driver_case(ctx: &mut Ctx, spec: &CorpusSpec, built: &Built, searcher: &Searcher, q: &Q, policy: &Policy, initial: f32) {
+    use tantivy::query::EnableScoring;
+    let query = q.build(&built.fields);
+    let Ok(weight) = query.weight(EnableScoring::enabled_from_searcher(searcher)) else { return };
+    for (ord, reader) in searcher.segment_readers().iter().enumerate() {
+        let case = json!({"kind": "driver", "corpus": spec.to_json(), "query": q.to_json(), "policy": format!("{policy:?}"), "initial_bits": initial.to_bits(), "segment_order": segment_order(searcher), "segment": ord});
+        let mut all: Vec<(DocId, Score)> = vec![];
+        if catch_unwind(AssertUnwindSafe(|| weight.for_each(reader, &mut |d, s| all.push((d, s))))).is_err() {
+            continue;
+        }
+        // expected: weight.rs::for_each_pruning_scorer over the exhaustive list
+        let mut st = PolicyState::new(policy.clone(), initial);
+        let mut expected: Vec<(DocId, u32)> = vec![];
+        for (d, s) in &all {
+            if *s > st.theta {
+                expected.push((*d, s.to_bits()));
+                st.call(*s);
+            }
+        }
+        let mut st = PolicyState::new(policy.clone(), initial);
+        let mut got: Vec<(DocId, u32)> = vec![];
+        let r = catch_unwind(AssertUnwindSafe(|| weight.for_each_pruning(initial, reader, &mut |d, s| { got.push((d, s.to_bits())); st.call(s) })));
+        ctx.report.count(&format!("driver:{}", q.path()));
+        ctx.report.count(&format!("driver-policy:{}", match policy { Policy::Const(_) => "const", Policy::Staircase => "staircase", Policy::KthBest(_) => "kth-best" }));
+        ctx.report.case(&format!("driver|{}|{}|{policy:?}|{}|{ord}", spec.to_json(), q.to_json(), initial.to_bits()), all.len() > 128 && expected.len() < all.len());
+        if r.is_err() || !matches!(r, Ok(Ok(()))) {
+            ctx.report.violation("oracle", "C06:pruning-driver-failed", format!("for_each_pruning on {} (segment {ord}) failed or panicked", q.to_json()), case);
+            continue;
+        }
+        // correspondence with Model/Wand.lean::wandSingle: the term's postings cut into the blocks
+        // the real driver sees, each with the bound it reads for it
+        if let Q::Term(t) = q {
+            let (field, term) = term_of(&built.fields, t);
+            if field != built.fields.basic {
+                if let Some(resp) = model_wand_single(ctx, searcher, reader, field, &term, policy, initial) {
+                    let model_calls: Vec<DocId> = resp.split('|').next().map(|c| if c == "-" { vec![] } else { c.split(',').filter_map(|x| x.parse().ok()).collect() }).unwrap_or_default();
+                    let real_calls: Vec<DocId> = got.iter().map(|(d, _)| *d).collect();
+                    ctx.report.count("wand-single-vs-model");
+                    if model_calls != real_calls {
+                        let p = (0..model_calls.len().max(real_calls.len())).find(|i| model_calls.get(*i) != real_calls.get(*i)).unwrap_or(0);
+                        ctx.report.violation("model", "C06:wand-single-model-mismatch", format!("{} on segment {ord}, policy {policy:?}, initial {initial:?}: block_wand_single_scorer offers {:?} at call {p}, the model {:?} ({} vs {} calls)", q.to_json(), real_calls.get(p), model_calls.get(p), real_calls.len(), model_calls.len()), case.clone());
+                    }
+                }
+            }
+        }
+        if got != expected {
+            let p = (0..got.len().max(expected.len())).find(|i| got.get(*i) != expected.get(*i)).unwrap_or(0);
+            let mut key = "C06:pruning-driver-differs-from-exhaustive".to_string();
+            let mut extra = String::new();
+            if let Q::Term(t) = q {
+                if let Some(w) = nofreq_signature(searcher, &built.fields, t) {
+                    key = "C06:nofreq-term-blockmax-zero".into();
+                    extra = format!(" [{w}]");
+                }
+            }
+            if let (Some(terms), true) = (q.wand_terms(), key == "C06:pruning-driver-differs-from-exhaustive") {
+                let (ubmax, ubblock) = ub_check(searcher, &built.fields, &terms);
+                let single = terms.len() == 1;
+                match (ubmax, ubblock) {
+                    (_, Some(w)) if single => { key = "C06:blockmax-pair-wrong-avg-fieldnorm".into(); extra = format!(" [UB_block fails: {w}]"); }
+                    (Some(w), _) => { key = "C06:maxscore-not-upper-bound".into(); extra = format!(" [UB_max fails: {w}]"); }
+                    (None, Some(w)) => { key = "C06:blockmax-pair-wrong-avg-fieldnorm".into(); extra = format!(" [UB_block fails: {w}]"); }
+                    (None, None) => {}
+                }
+            }
+            ctx.report.violation("oracle", &key, format!("{} via {} on segment {ord} ({} docs), policy {policy:?}, initial threshold {initial:?}: callback sequence differs from the exhaustive loop at call {p}: got {:?}, expected {:?} ({} vs {} calls){extra}", q.to_json(), q.path(), all.len(), got.get(p).map(|(d, s)| (*d, f32::from_bits(*s))), expected.get(p).map(|(d, s)| (*d, f32::from_bits(*s))), got.len(), expected.len()), case);
+        }
+    }
+}
+
+/// three to five scoring clauses: the float sums of the two paths may differ by rounding, so the
+/// callback keeps the threshold CONSTANT (no path dependence) and the comparison is by tolerance:
+/// every document scoring clearly above the threshold must be offered, nothing clearly below it,
+/// and every offered score must be the document's score up to the tolerance.
+fn driver_case_multi(ctx: &mut Ctx, spec: &CorpusSpec, built: &Built, searcher: &Searcher, q: &Q, threshold: f32) {
+    use tantivy::query::EnableScoring;
+    let query = q.build(&built.fields);
+    let Ok(weight) = query.weight(EnableScoring::enabled_from_searcher(searcher)) else { return };
+    let n = q.clauses();
+    for (ord, reader) in searcher.segment_readers().iter().enumerate() {
+        let case = json!({"kind": "driver-multi", "corpus": spec.to_json(), "query": q.to_json(), "threshold_bits": threshold.to_bits(), "segment_order": segment_order(searcher), "segment": ord});
+        let mut all: std::collections::HashMap<DocId, Score> = std::collections::HashMap::new();
+        if catch_unwind(AssertUnwindSafe(|| weight.for_each(reader, &mut |d, s| { all.insert(d, s); }))).is_err() {
+            continue;
+        }
+        let mut got: Vec<(DocId, Score)> = vec![];
+        let r = catch_unwind(AssertUnwindSafe(|| weight.for_each_pruning(threshold, reader, &mut |d, s| { got.push((d, s)); threshold })));
+        ctx.report.count(&format!("driver-multi:{}", q.path()));
+        ctx.report.case(&format!("driver-multi|{}|{}|{}|{ord}", spec.to_json(), q.to_json(), threshold.to_bits()), all.len() > 128);
+        if !matches!(r, Ok(Ok(()))) {
+            ctx.report.violation("oracle", "C06:pruning-driver-failed", format!("for_each_pruning on {} (segment {ord}) failed or panicked", q.to_json()), case);
+            continue;
+        }
+        let tol = |a: f32| ulp_tol(n, a, threshold);
+        let mut what = None;
+        let called: std::collections::HashMap<DocId, Score> = got.iter().cloned().collect();
+        for (d, s) in &got {
+            match all.get(d) {
+                None => { what = Some(format!("document {d} offered but it does not match")); break }
+                Some(t) if (t - s).abs() > ulp_tol(n, *t, *s) => { what = Some(format!("document {d} offered with score {s:?}, its score is {t:?}")); break }
+                Some(t) if *t < threshold - tol(*t) => { what = Some(format!("document {d} (score {t:?}) offered although not above the threshold {threshold:?}")); break }
+                _ => {}
+            }
+        }
+        if what.is_none() {
+            if got.windows(2).any(|w| w[0].0 >= w[1].0) {
+                what = Some("documents not offered in ascending order".into());
+            }
+        }
+        if what.is_none() {
+            for (d, t) in &all {
+                if *t > threshold + tol(*t) && !called.contains_key(d) {
+                    what = Some(format!("document {d} scores {t:?} > threshold {threshold:?} but was never offered"));
+                    break;
+                }
+            }
+        }
+        if let Some(what) = what {
+            let mut key = "C06:pruning-driver-differs-from-exhaustive".to_string();
+            let mut extra = String::new();
+            if let Some(terms) = q.wand_terms() {
+                let (ubmax, ubblock) = ub_check(searcher, &built.fields, &terms);
+                match (ubmax, ubblock) {
+                    (Some(w), _) => { key = "C06:maxscore-not-upper-bound".into(); extra = format!(" [UB_max fails: {w}]"); }
+                    (None, Some(w)) => { key = "C06:blockmax-pair-wrong-avg-fieldnorm".into(); extra = format!(" [UB_block fails: {w}]"); }
+                    (None, None) => {}
+                }
+            }
+            ctx.report.violation("oracle", &key, format!("{} via {} on segment {ord} ({} matches), constant threshold {threshold:?}: {what}{extra}", q.to_json(), q.path(), all.len()), case);
+        }
+    }
+}
+
+fn driver_run(ctx: &mut Ctx, spec: &CorpusSpec, built: &Built, searcher: &Searcher, rng: &mut Rng, n: usize) {
+    // multi-clause unions and conjunctions (>= 3 secondaries for the intersection driver)
+    for _ in 0..n {
+        let mut ts: Vec<String> = TERMS.iter().take(5).map(|s| s.to_string()).collect();
+        if rng.chance(1, 4) { ts.push("t:a".into()); }
+        rng.shuffle(&mut ts);
+        let k = 3 + rng.usize_below(3);
+        let ts = ts[..k.min(ts.len())].to_vec();
+        let q = if rng.chance(1, 2) { Q::Inter(ts) } else { Q::Union(ts) };
+        let sample: Vec<Score> = {
+            let query = q.build(&built.fields);
+            searcher.search(query.as_ref(), &AllHits).map(|h| h.into_iter().map(|x| x.2).collect()).unwrap_or_default()
+        };
+        if sample.is_empty() { continue; }
+        let mut sorted = sample.clone();
+        sorted.sort_by(|a, b| b.partial_cmp(a).unwrap());
+        // thresholds near the top of the score distribution (where pruning is active)
+        let th = match rng.below(4) { 0 => sorted[sorted.len() / 2], 1 => sorted[sorted.len() / 10], 2 => sorted[(sorted.len() / 100).min(sorted.len() - 1)], _ => sorted[rng.usize_below(sorted.len().min(20))] };
+        driver_case_multi(ctx, spec, built, searcher, &q, th);
+    }
+    for _ in 0..n {
+        // one or two scoring clauses: the scores are bit-identical on both paths (IEEE addition commutes)
+        let mut ts: Vec<String> = TERMS.iter().take(4).map(|s| s.to_string()).collect();
+        rng.shuffle(&mut ts);
+        let q = match rng.below(6) {
+            0 | 1 => Q::Term(ts[0].clone()),
+            2 => Q::Union(ts[..2].to_vec()),
+            3 => Q::Inter(ts[..2].to_vec()),
+            4 => Q::Term(["n:a", "n:b", "t:a"][rng.usize_below(3)].to_string()),
+            // mixed fields (both with freqs): different fieldnorm readers and weights in one WAND
+            _ => if rng.chance(1, 2) { Q::Union(vec![ts[0].clone(), "t:a".into()]) } else { Q::Inter(vec![ts[0].clone(), "t:b".into()]) },
+        };
+        // thresholds taken from the scores that occur (strictness at equality) and around them
+        let sample: Vec<Score> = {
+            let query = q.build(&built.fields);
+            searcher.search(query.as_ref(), &AllHits).map(|h| h.into_iter().map(|x| x.2).collect()).unwrap_or_default()
+        };
+        let pick = |rng: &mut Rng| -> f32 {
+            if sample.is_empty() { return 0.0 }
+            let s = sample[rng.usize_below(sample.len())];
+            match rng.below(4) { 0 => s, 1 => f32::from_bits(s.to_bits().saturating_sub(1)), 2 => f32::from_bits(s.to_bits() + 1), _ => s * 0.5 }
+        };
+        // block_wand_intersection filters candidates with `leader_score > threshold - Σ block_max`:
+        // the rounded subtraction can drop a document whose (exactly summed) score exceeds the
+        // threshold by an ulp (observed on the unchanged tree) — inside the property's "up to
+        // floating-point rounding of the sum". Conjunctions are therefore compared by tolerance.
+        if let Q::Inter(_) = &q {
+            if !sample.is_empty() {
+                driver_case_multi(ctx, spec, built, searcher, &q, pick(rng));
+            }
+            continue;
+        }
+        let policy = match rng.below(5) { 0 => Policy::Const(pick(rng).to_bits()), 1 => Policy::Staircase, _ => Policy::KthBest(1 + rng.usize_below(30)) };
+        let initial = match (&policy, rng.below(3)) { (Policy::Const(b), _) => f32::from_bits(*b), (_, 0) => pick(rng), _ => f32::MIN };
+        driver_case(ctx, spec, built, searcher, &q, &policy, initial);
+    }
+}
+
+/// the two recorded defects, replayed on their minimal corpora first (DESIGN §8 F5, S3)
+fn known_corpora(ctx: &mut Ctx) {
+    // F5: docs `a×43`, `a×41`, 2000×`b`; query `a OR b`; TopDocs(1)
+    {
+        let (schema, fields) = schema();
+        let index = Index::create_in_ram(schema);
+        let mut w: IndexWriter = index.writer_with_num_threads(1, 50_000_000).unwrap();
+        let add = |w: &mut IndexWriter, text: String, id: u64| {
+            let mut doc = TantivyDocument::default();
+            doc.add_text(fields.body, text);
+            doc.add_u64(fields.id, id);
+            doc.add_u64(fields.u, id); doc.add_i64(fields.i, 0); doc.add_f64(fields.f, 0.0);
+            doc.add_date(fields.d, DateTime::from_timestamp_secs(0)); doc.add_text(fields.s, "x"); doc.add_u64(fields.ties, 0);
+            w.add_document(doc).unwrap();
+        };
+        add(&mut w, vec!["a"; 43].join(" "), 0);
+        add(&mut w, vec!["a"; 41].join(" "), 1);
+        for i in 0..2000 {
+            add(&mut w, "b".into(), 2 + i);
+        }
+        w.commit().unwrap();
+        let built = Built { index, fields, num_docs: 2002 };
+        let ss = searchers(&built);
+        let evals = eval_queries(&built, &ss[0].1, vec![Q::Union(vec!["a".into(), "b".into()]), Q::Term("a".into())]);
+        let spec = CorpusSpec { segs: vec![], delete_seed: 0, delete_permille: 0, ties_trend: false, ties_explicit: None };
+        for qe in &evals {
+            ctx.report.count("known-corpus:F5");
+            let ok = check_search_known(ctx, "F5", &built, &ss[0].1, qe, 1);
+            if ok { ctx.report.notes.push(format!("F5 corpus, query {}: TopDocs(1) is correct on this tree", qe.q.to_json())); }
+        }
+        let _ = spec;
+    }
+    // S3: segment A = 128×`a a q×8`, then 64×`a` interleaved with 64×`a a q×8`, 50 fillers of 2000 tokens; B = 20000×`z`
+    {
+        let (schema, fields) = schema();
+        let index = Index::create_in_ram(schema);
+        let mut w: IndexWriter = index.writer_with_num_threads(1, 80_000_000).unwrap();
+        w.set_merge_policy(Box::new(NoMergePolicy));
+        let mut id = 0u64;
+        let mut add = |w: &mut IndexWriter, text: String| {
+            let mut doc = TantivyDocument::default();
+            doc.add_text(fields.body, text);
+            doc.add_u64(fields.id, id);
+            doc.add_u64(fields.u, id); doc.add_i64(fields.i, 0); doc.add_f64(fields.f, 0.0);
+            doc.add_date(fields.d, DateTime::from_timestamp_secs(0)); doc.add_text(fields.s, "x"); doc.add_u64(fields.ties, 0);
+            w.add_document(doc).unwrap();
+            id += 1;
+        };
+        let long = "a a q q q q q q q q".to_string();
+        for _ in 0..128 { add(&mut w, long.clone()); }
+        for j in 0..128 { add(&mut w, if j % 2 == 0 { "a".to_string() } else { long.clone() }); }
+        let filler = vec!["z"; 2000].join(" ");
+        for _ in 0..50 { add(&mut w, filler.clone()); }
+        w.commit().unwrap();
+        for _ in 0..20000 { add(&mut w, "z".to_string()); }
+        w.commit().unwrap();
+        w.wait_merging_threads().unwrap();
+        let built = Built { index, fields, num_docs: id as usize };
+        let ss = searchers(&built);
+        let evals = eval_queries(&built, &ss[0].1, vec![Q::Term("a".into())]);
+        for qe in &evals {
+            ctx.report.count("known-corpus:S3");
+            let ok = check_search_known(ctx, "S3", &built, &ss[0].1, qe, 1);
+            if ok { ctx.report.notes.push("S3 corpus: TopDocs(1) is correct on this tree".into()); }
+        }
+    }
+}
+
+fn check_search_known(ctx: &mut Ctx, which: &str, built: &Built, searcher: &Searcher, qe: &QueryEval, k: usize) -> bool {
+    let spec = CorpusSpec { segs: vec![], delete_seed: 0, delete_permille: 0, ties_trend: false, ties_explicit: None };
+    let before = ctx.report.violations.len();
+    let ok = check_search(ctx, &spec, built, searcher, 1, qe, &Kind::Score, k, 0);
+    // the generated-case replay format cannot rebuild the hand-written corpus: mark the case
+    for v in ctx.report.violations.iter_mut().skip(before) {
+        v.case = json!({"kind": "known-corpus", "which": which, "query": qe.q.to_json(), "k": k});
+    }
+    ok
+}
+
+pub fn replay(ctx: &mut Ctx, case: &Value) {
+    match case["kind"].as_str().unwrap_or("") {
+        "topn" => {
+            let keys: Vec<i64> = case["keys"].as_array().map(|a| a.iter().filter_map(|x| x.as_i64()).collect()).unwrap_or_default();
+            let addrs: Vec<u32> = case["addrs"].as_array().map(|a| a.iter().filter_map(|x| x.as_u64().map(|y| y as u32)).collect()).unwrap_or_default();
+            topn_case(ctx, case["k"].as_u64().unwrap_or(0) as usize, case["asc"].as_bool().unwrap_or(false), &keys, &addrs, "replay");
+        }
+        "search" | "paging" => {
+            let (Some(spec), Some(q), Some(kind)) = (CorpusSpec::from_json(&case["corpus"]), Q::from_json(&case["query"]), kind_from_json(&case["collector"])) else {
+                ctx.report.notes.push("replay: malformed case".into());
+                return;
+            };
+            let want: Option<Vec<u64>> = case["segment_order"].as_array().map(|a| a.iter().filter_map(|x| x.as_u64()).collect());
+            let (built, matched) = build_with_order(&spec, want.as_ref());
+            if !matched {
+                ctx.report.notes.push("replay: could not rebuild the corpus with the recorded segment order (it is random per build); replayed on a different order".into());
+            }
+            let ss = searchers(&built);
+            let threads = case["threads"].as_u64().unwrap_or(1) as usize;
+            let (t, searcher) = ss.iter().find(|(t, _)| *t == threads).unwrap_or(&ss[0]);
+            let evals = eval_queries(&built, searcher, vec![q]);
+            if let Some(qe) = evals.first() {
+                check_search(ctx, &spec, &built, searcher, *t, qe, &kind, case["k"].as_u64().unwrap_or(1) as usize, case["offset"].as_u64().unwrap_or(0) as usize);
+            }
+        }
+        "driver" | "driver-multi" => {
+            let (Some(spec), Some(q)) = (CorpusSpec::from_json(&case["corpus"]), Q::from_json(&case["query"])) else { return };
+            let want: Option<Vec<u64>> = case["segment_order"].as_array().map(|a| a.iter().filter_map(|x| x.as_u64()).collect());
+            let (built, _) = build_with_order(&spec, want.as_ref());
+            let ss = searchers(&built);
+            if case["kind"] == "driver-multi" {
+                driver_case_multi(ctx, &spec, &built, &ss[0].1, &q, f32::from_bits(case["threshold_bits"].as_u64().unwrap_or(0) as u32));
+            } else if let Q::Inter(_) = &q {
+                driver_case_multi(ctx, &spec, &built, &ss[0].1, &q, f32::from_bits(case["initial_bits"].as_u64().unwrap_or(0) as u32));
+            } else {
+                let pol = case["policy"].as_str().unwrap_or("");
+                let policy = if pol.starts_with("Staircase") { Policy::Staircase } else if let Some(k) = pol.strip_prefix("KthBest(").and_then(|x| x.strip_suffix(')')).and_then(|x| x.parse().ok()) { Policy::KthBest(k) } else if let Some(b) = pol.strip_prefix("Const(").and_then(|x| x.strip_suffix(')')).and_then(|x| x.parse().ok()) { Policy::Const(b) } else { Policy::Staircase };
+                driver_case(ctx, &spec, &built, &ss[0].1, &q, &policy, f32::from_bits(case["initial_bits"].as_u64().unwrap_or(0) as u32));
+            }
+        }
+        "known-corpus" => known_corpora(ctx),
+        other => ctx.report.notes.push(format!("replay kind {other:?} unknown")),
+    }
+}
 
 pub fn run(ctx: &mut Ctx) {
-    ctx.report.notes.push("C06: harness not built yet".into());
+    ctx.report.rule = "part A: TopNComputer push sequences, non-trivial = more pushes than the buffer capacity 2·max(K,1) and at least one key tie; \
+        part B: (corpus, query, collector, K, offset, executor) tuples, non-trivial = more matches than K+offset (so that something is cut off); paging runs non-trivial = more than one page".into();
+    ctx.report.correspondence_obligations = vec![
+        "TopNComputer::into_sorted_vec = model intoSortedVec (two select_nth behaviours) = sort-and-truncate".into(),
+        "TopNComputer::threshold after every push = model threshold".into(),
+        "Searcher::search(TopDocs by score / fast field asc,desc (u64,i64,f64,date,str) / tweak_score / custom SortKeyComputer / pair) = model topK of the same searcher's exhaustive (doc,key) list".into(),
+        "paging over successive offsets enumerates every match exactly once".into(),
+        "block_wand_single_scorer's callback sequence = Model/Wand.lean::wandSingle on the term's real blocks and bounds".into(),
+        "Weight::for_each_pruning (block_wand_single_scorer / block_wand / block_wand_intersection) under constant, staircase and K-th-best callback policies = the exhaustive loop with the same callback (1-2 clause queries, bit-exact)".into(),
+        "known bound failures (UB_max, UB_block) recomputed through the public postings API before attribution".into(),
+    ];
+    if let Some(case) = ctx.replay.clone() {
+        replay(ctx, &case);
+        return;
+    }
+    if std::env::var("C06_EXPLORE").is_ok() {
+        explore_merge_replica(ctx);
+        return;
+    }
+    // corpus of hand-written boundary cases first
+    topn_case(ctx, 0, false, &[1, 1, 1], &[1, 2, 3], "corpus");
+    topn_case(ctx, 1, false, &[5, 5, 5, 5, 5], &[0, 1, 2, 3, 4], "corpus");
+    topn_case(ctx, 2, true, &[3, 1, 1, 1, 1, 0, 1], &[0, 1, 2, 3, 4, 5, 6], "corpus");
+    known_corpora(ctx);
+    let guided = ctx.budget(16, 100) as usize;
+    guided_ties(ctx, guided, 200_000);
+    let n_topn = ctx.budget(3000, 60_000);
+    gen_topn(ctx, n_topn);
+    let corpora = ctx.budget(120, 800);
+    let mut rng = ctx.rng.fork();
+    for c in 0..corpora {
+        let flavour = match c % 8 { 0 => 0, 1 => 6, 2 => 3, 3 => 4, 4 => 1, 5 => 5, _ => 2 };
+        let spec = gen_corpus(&mut rng, flavour, ctx.thorough());
+        ctx.report.count(&format!("corpus-flavour:{}", ["clean-1seg", "2seg", "multi-seg", "F5-neighbourhood", "S3-neighbourhood", "ties-neighbourhood", "length-trend"][flavour as usize]));
+        let mut r2 = rng.fork();
+        let t0 = std::time::Instant::now();
+        corpus_run(ctx, &spec, &mut r2, 7, 6);
+        ctx.report.count_n(&format!("millis:corpus-flavour:{flavour}"), t0.elapsed().as_millis() as u64);
+        if c < 2 {
+            ctx.report.sample(json!({"part": "B", "corpus": spec.to_json(), "example": "each query: exhaustive (doc, score) list once, then TopDocs by several collectors / K / offsets / executors + a paging run"}));
+        }
+    }
 }
